@@ -1,7 +1,12 @@
-(* split_nodes preserves the store invariant (part 1): generic lemmas, the specification
-   side conditions, inversion of a successful split, node-level computations and the neighbour
-   renaming.  The abstract view, the preservation theorem and the diagram statements are in
-   InvSplit2.v. *)
+(* split_nodes preserves the store invariant.
+   Part 1: generic lemmas, wf_lax_NoDup, the side conditions (spec_ok, ids_ok), inversion of a
+           successful split (split_nodes_inv), node-level computations, neighbour renaming.
+   Part 2: an abstract description ("view") of the store after a split in terms of an upper node U
+           and a lower node Lo, and the proof that any store matching the view is well formed
+           (split_view_wf).
+   Part 3: a successful split matches the view (split_inv_view); split_preserves_wf/wfb; the
+           diagram statements (atoms, wire ends, newest definition, open-leg rule); counterexamples
+           showing that the truthfulness of the leg specifications is needed. *)
 From Coq Require Import List Arith Bool Lia Permutation.
 From PTN Require Import TTN.Store TTN.StoreProofs TTN.Inv TTN.InvProofs TTN.InvNode.
 Import ListNotations.
@@ -802,3 +807,1791 @@ Proof.
   revert r. induction l as [|x' t IH]; intros [|z r] E Hx; cbn in *; try contradiction; try discriminate.
   injection E as E1 E2. destruct Hx as [->|Hx]; [exists z; auto|]. destruct (IH r E2 Hx) as (y & H1 & H2). exists y. auto.
 Qed.
+
+(* ==================================================================================================== *)
+(* Part 2: the abstract view                                                                              *)
+(* ==================================================================================================== *)
+
+
+Ltac ulia := unfold id, wire in *; lia.
+
+Record split_view (s1 s' : store) (n : id) (nd : node) (t : sarr) (U Lo : id) (su sl : legspec)
+       (cU cL : list nat) (nU nL : node) (tU tL : sarr) (bd : nat) : Prop := {
+  sv_n : aget n (nodes s1) = Some nd;
+  sv_t : aget n (tensors s1) = Some t;
+  sv_id : perm nd = seq 0 (length (axes t));
+  sv_UL : U <> Lo;
+  sv_U : U = n \/ ~ In U (akeys (nodes s1));
+  sv_L : Lo = n \/ ~ In Lo (akeys (nodes s1));
+  sv_cU : map (neighbour_index nd) (ls_children su) = map Some cU;
+  sv_cL : map (neighbour_index nd) (ls_children sl) = map Some cL;
+  sv_chU : incl (ls_children su) (children nd);
+  sv_chL : incl (ls_children sl) (children nd);
+  sv_opU : forall l, In l (ls_open su) -> nvirt nd <= l;
+  sv_opL : forall l, In l (ls_open sl) -> nvirt nd <= l;
+  sv_perm : Permutation (seq 0 (nparents nd) ++ (cU ++ ls_open su) ++ (cL ++ ls_open sl)) (seq 0 (length (axes t)));
+  (* the upper node *)
+  sv_nU : aget U (nodes s') = Some nU;
+  sv_nU_par : parent nU = parent nd;
+  sv_nU_ch : children nU = Lo :: ls_children su;
+  sv_nU_lax : laxes nU tU = firstn (nparents nd) (axes t) ++ next_wire s1 :: permute 0 (cU ++ ls_open su) (axes t);
+  sv_nU_perm : Permutation (perm nU) (seq 0 (length (shape nU)));
+  sv_nU_shape : shape nU = map (wdim s') (axes tU);
+  sv_tU_axes : incl (axes tU) (next_wire s1 :: axes t);
+  (* the lower node *)
+  sv_nL : aget Lo (nodes s') = Some nL;
+  sv_nL_par : parent nL = Some U;
+  sv_nL_ch : children nL = ls_children sl;
+  sv_nL_lax : laxes nL tL = next_wire s1 :: permute 0 (cL ++ ls_open sl) (axes t);
+  sv_nL_perm : Permutation (perm nL) (seq 0 (length (shape nL)));
+  sv_nL_shape : shape nL = map (wdim s') (axes tL);
+  sv_tL_axes : incl (axes tL) (next_wire s1 :: axes t);
+  (* the old nodes *)
+  sv_old : forall k nk, k <> n -> aget k (nodes s1) = Some nk ->
+           exists nk', aget k (nodes s') = Some nk' /\ perm nk' = perm nk /\ shape nk' = shape nk /\
+             (In k (ls_children su) -> parent nk' = Some U) /\
+             (In k (ls_children sl) -> parent nk' = Some Lo) /\
+             (~ In k (ls_children su) -> ~ In k (ls_children sl) -> parent nk' = parent nk) /\
+             (parent nd = Some k -> children nk' = replace_first n U (children nk)) /\
+             (parent nd <> Some k -> children nk' = children nk);
+  sv_keys : forall k, In k (akeys (nodes s')) -> k = U \/ k = Lo \/ (k <> n /\ In k (akeys (nodes s1)));
+  sv_nd : NoDup (akeys (nodes s'));
+  (* tensors *)
+  sv_tU : aget U (tensors s') = Some tU;
+  sv_tL : aget Lo (tensors s') = Some tL;
+  sv_told : forall k, k <> U -> k <> Lo -> aget k (tensors s') = if Nat.eqb k n then None else aget k (tensors s1);
+  sv_tnd : NoDup (akeys (tensors s'));
+  (* the rest *)
+  sv_root : root s' = match parent nd with None => Some U | Some _ => root s1 end;
+  sv_dims : dims s' = dims s1 ++ [(next_wire s1, bd)];
+  sv_nw : next_wire s' = S (next_wire s1)
+}.
+
+Lemma option_eq_dec_id (a b : option id) : {a = b} + {a <> b}.
+Proof. decide equality. apply Nat.eq_dec. Qed.
+
+Lemma sp_NoDup_map_Some {A} (l : list A) : NoDup (map Some l) <-> NoDup l.
+Proof.
+  split; [apply NoDup_map_inv|]. intros H. induction H as [|x l Hni Hnd IH]; cbn; constructor; [|exact IH].
+  intros Hin. apply in_map_iff in Hin. destruct Hin as (y & [= ->] & Hy). contradiction.
+Qed.
+
+Lemma sp_NoDup_app_l {A} (a b : list A) : NoDup (a ++ b) -> NoDup a.
+Proof. intros H. apply NoDup_app_iff in H. tauto. Qed.
+Lemma sp_NoDup_app_r {A} (a b : list A) : NoDup (a ++ b) -> NoDup b.
+Proof. intros H. apply NoDup_app_iff in H. tauto. Qed.
+
+Lemma sp_nth_firstn {A} (l : list A) v i d : i < v -> nth i (firstn v l) d = nth i l d.
+Proof.
+  revert v i. induction l as [|x t IH]; intros v i Hi; [destruct v, i; reflexivity|].
+  destruct v as [|v]; [lia|]. destruct i as [|i]; [reflexivity|]. cbn. apply IH. lia.
+Qed.
+
+Lemma sp_firstn_app_exact {A} (a r : list A) v : length a = v -> firstn v (a ++ r) = a.
+Proof. intros <-. apply firstn_app_len. Qed.
+Lemma sp_skipn_app_exact {A} (a r : list A) v : length a = v -> skipn v (a ++ r) = r.
+Proof. intros <-. apply skipn_app_len. Qed.
+
+Lemma sp_nth_app_exact {A} (d : A) l x r k : length l = k -> nth k (l ++ x :: r) d = x.
+Proof. intros <-. apply sp_nth_app_len. Qed.
+
+Lemma sp_own_of_incl n t : incl (own_of n t) (laxes n t).
+Proof.
+  intros w Hw. unfold own_of in Hw. apply in_app_or in Hw. destruct Hw as [Hw|Hw].
+  - rewrite <- (firstn_skipn (nparents n) (laxes n t)). apply in_or_app. left. exact Hw.
+  - rewrite <- (firstn_skipn (nvirt n) (laxes n t)). apply in_or_app. right. exact Hw.
+Qed.
+
+Lemma sp_neighbour_index_same a b x :
+  parent a <> Some x -> parent b <> Some x -> nparents a = nparents b ->
+  index_of x (children a) = index_of x (children b) -> neighbour_index a x = neighbour_index b x.
+Proof. intros Ha Hb Hn Hi. rewrite (neighbour_index_child a x Ha), (neighbour_index_child b x Hb), Hn, Hi. reflexivity. Qed.
+
+Lemma sp_permute_In {A} (d : A) p l x : In x (permute d p l) -> exists i, In i p /\ x = nth i l d.
+Proof. unfold permute. intros Hx. apply in_map_iff in Hx. destruct Hx as (i & <- & Hi). eauto. Qed.
+
+Lemma sp_nth_permute {A} (d : A) p l j : j < length p -> nth j (permute d p l) d = nth (nth j p 0) l d.
+Proof.
+  intros Hj. unfold permute. rewrite (nth_indep _ d (nth 0 l d)) by (rewrite map_length; exact Hj).
+  rewrite (map_nth (fun i => nth i l d) p 0 j). reflexivity.
+Qed.
+
+Section View.
+  Variables (s1 s' : store) (n : id) (nd : node) (t : sarr) (U Lo : id) (su sl : legspec)
+            (cU cL : list nat) (nU nL : node) (tU tL : sarr) (bd : nat).
+  Hypothesis H : wf s1.
+  Hypothesis V : split_view s1 s' n nd t U Lo su sl cU cL nU nL tU tL bd.
+
+  Let W := axes t.
+  Let b := next_wire s1.
+  Let v := nparents nd.
+  Let chU := ls_children su.
+  Let chL := ls_children sl.
+
+  Let En := sv_n _ _ _ _ _ _ _ _ _ _ _ _ _ _ _ _ V.
+  Let Et := sv_t _ _ _ _ _ _ _ _ _ _ _ _ _ _ _ _ V.
+
+  Lemma svw_tens_n : tens s1 n = t.
+  Proof. apply tens_aget. exact Et. Qed.
+
+  Lemma svw_lax_n : lax s1 n nd = W.
+  Proof. unfold lax. rewrite svw_tens_n. apply sp_laxes_id. apply (sv_id _ _ _ _ _ _ _ _ _ _ _ _ _ _ _ _ V). Qed.
+
+  Lemma svw_NoDupW : NoDup W.
+  Proof. rewrite <- svw_lax_n. apply (wf_lax_NoDup s1 n nd H En). Qed.
+
+  Lemma svw_nlegs : nlegs nd = length W.
+  Proof. unfold nlegs. rewrite (sv_id _ _ _ _ _ _ _ _ _ _ _ _ _ _ _ _ V). apply seq_length. Qed.
+
+  Lemma svw_virt : nvirt nd <= length W.
+  Proof. rewrite <- svw_nlegs. apply (ni_virt _ _ _ (wf_node s1 H n nd En)). Qed.
+
+  Lemma svw_v_le : v <= nvirt nd.
+  Proof. unfold v, nvirt. lia. Qed.
+
+  Lemma svw_W_lt w : In w W -> w < b.
+  Proof. intros Hw. apply (wf_wires s1 H n t w Et Hw). Qed.
+
+  (* old keys other than n are neither U nor Lo *)
+  Lemma svw_old_fresh k : In k (akeys (nodes s1)) -> k <> n -> k <> U /\ k <> Lo.
+  Proof.
+    intros Hk Hne. split; intros ->.
+    - destruct (sv_U _ _ _ _ _ _ _ _ _ _ _ _ _ _ _ _ V); [congruence|contradiction].
+    - destruct (sv_L _ _ _ _ _ _ _ _ _ _ _ _ _ _ _ _ V); [congruence|contradiction].
+  Qed.
+
+  (* children of n *)
+  Lemma svw_child c : In c (children nd) ->
+    exists cn, aget c (nodes s1) = Some cn /\ parent cn = Some n /\ c <> n /\ c <> U /\ c <> Lo /\ parent nd <> Some c.
+  Proof.
+    intros Hc. destruct (ni_ch _ _ _ (wf_node s1 H n nd En) c Hc) as (cn & Ec & Epc).
+    assert (Hne : c <> n). { intros ->. apply (wf_not_self_parent s1 n cn H Ec Epc). }
+    destruct (svw_old_fresh c (aget_Some_keys _ _ _ Ec) Hne) as [H1 H2].
+    exists cn. repeat split; auto. eapply wf_parent_not_child; eauto.
+  Qed.
+
+  Lemma svw_parent p : parent nd = Some p ->
+    exists pn i, aget p (nodes s1) = Some pn /\ In n (children pn) /\ neighbour_index pn n = Some i /\
+                 nth 0 W 0 = nth i (lax s1 p pn) 0 /\ p <> n /\ p <> U /\ p <> Lo /\ parent pn <> Some n /\ ~ In p (children nd).
+  Proof.
+    intros Hp. destruct (ni_par _ _ _ (wf_node s1 H n nd En) p Hp) as (pn & i & Epn & Hin & Hni & Hw).
+    assert (Hne : p <> n). { intros ->. apply (wf_not_self_parent s1 n nd H En Hp). }
+    destruct (svw_old_fresh p (aget_Some_keys _ _ _ Epn) Hne) as [H1 H2].
+    exists pn, i. rewrite svw_lax_n in Hw. repeat split; auto.
+    - eapply wf_parent_not_child; eauto.
+    - intros Hc. destruct (svw_child p Hc) as (_ & _ & _ & _ & _ & _ & Hx). contradiction.
+  Qed.
+
+  (* the leg of a listed child *)
+  Lemma svw_leg_of (ch : list id) (cl : list nat) j :
+    map (neighbour_index nd) ch = map Some cl -> incl ch (children nd) -> j < length ch ->
+    neighbour_index nd (nth j ch 0) = Some (nth j cl 0) /\ v <= nth j cl 0 < nvirt nd /\
+    nth (nth j cl 0 - v) (children nd) 0 = nth j ch 0.
+  Proof.
+    intros Hm Hincl Hj. pose proof (sp_map_Some_nth _ _ _ j 0 0 Hm Hj) as E. split; [exact E|].
+    assert (Hc : In (nth j ch 0) (children nd)) by (apply Hincl; apply nth_In; exact Hj).
+    destruct (svw_child _ Hc) as (_ & _ & _ & _ & _ & _ & Hx).
+    apply (neighbour_index_lt nd _ _ Hx E).
+  Qed.
+
+  Lemma svw_perm_NoDup : NoDup (seq 0 v ++ (cU ++ ls_open su) ++ (cL ++ ls_open sl)).
+  Proof.
+    apply (Permutation_NoDup (Permutation_sym (sv_perm _ _ _ _ _ _ _ _ _ _ _ _ _ _ _ _ V))). apply seq_NoDup.
+  Qed.
+
+  Lemma svw_perm_In x : x < length W -> In x (seq 0 v ++ (cU ++ ls_open su) ++ (cL ++ ls_open sl)).
+  Proof.
+    intros Hx. apply (Permutation_in _ (Permutation_sym (sv_perm _ _ _ _ _ _ _ _ _ _ _ _ _ _ _ _ V))). apply in_seq. fold W. lia.
+  Qed.
+
+  Lemma svw_perm_lt x : In x (seq 0 v ++ (cU ++ ls_open su) ++ (cL ++ ls_open sl)) -> x < length W.
+  Proof.
+    intros Hx. apply (Permutation_in _ (sv_perm _ _ _ _ _ _ _ _ _ _ _ _ _ _ _ _ V)) in Hx. apply in_seq in Hx. fold W in Hx. lia.
+  Qed.
+
+  Lemma svw_cc_NoDup : NoDup (cU ++ cL).
+  Proof.
+    pose proof svw_perm_NoDup as Hnd. apply sp_NoDup_app_r in Hnd.
+    apply NoDup_app_iff in Hnd. destruct Hnd as (H1 & H2 & H3).
+    apply sp_NoDup_app_l in H1. apply sp_NoDup_app_l in H2.
+    apply NoDup_app_iff. repeat split; auto. intros x Hx Hy. apply (H3 x); apply in_or_app; left; assumption.
+  Qed.
+
+  Lemma svw_ch_NoDup : NoDup (chU ++ chL).
+  Proof.
+    apply (NoDup_map_inv (neighbour_index nd)). rewrite map_app.
+    unfold chU, chL. rewrite (sv_cU _ _ _ _ _ _ _ _ _ _ _ _ _ _ _ _ V), (sv_cL _ _ _ _ _ _ _ _ _ _ _ _ _ _ _ _ V).
+    rewrite <- map_app. apply sp_NoDup_map_Some. apply svw_cc_NoDup.
+  Qed.
+
+  Lemma svw_ch_disj k : In k chU -> In k chL -> False.
+  Proof. pose proof svw_ch_NoDup as Hnd. apply NoDup_app_iff in Hnd. destruct Hnd as (_ & _ & Hd). apply Hd. Qed.
+
+  (* every child of n is listed in one of the two specifications *)
+  Lemma svw_ch_cover c : In c (children nd) -> In c chU \/ In c chL.
+  Proof.
+    intros Hc. destruct (In_nth _ _ 0 Hc) as (j & Hj & Ej).
+    assert (Hlt : v + j < nvirt nd) by (unfold v, nvirt; unfold id in *; lia).
+    pose proof (svw_perm_In (v + j) ltac:(pose proof svw_virt; lia)) as Hin.
+    assert (Hcase : forall ch cl, map (neighbour_index nd) ch = map Some cl -> incl ch (children nd) -> In (v + j) cl -> In c ch).
+    { intros ch cl Hm Hincl Hx. destruct (sp_map_Some_In _ _ _ _ Hm Hx) as (x & Hx1 & Hx2).
+      destruct (svw_child x (Hincl x Hx1)) as (_ & _ & _ & _ & _ & _ & Hpx).
+      destruct (neighbour_index_lt nd x _ Hpx Hx2) as [_ Hn]. fold v in Hn.
+      replace (v + j - v) with j in Hn by lia. unfold id in *. rewrite Ej in Hn. subst x. exact Hx1. }
+    apply in_app_or in Hin. destruct Hin as [Hin|Hin]; [apply in_seq in Hin; lia|].
+    apply in_app_or in Hin. destruct Hin as [Hin|Hin]; apply in_app_or in Hin; destruct Hin as [Hin|Hin].
+    - left. apply (Hcase _ _ (sv_cU _ _ _ _ _ _ _ _ _ _ _ _ _ _ _ _ V) (sv_chU _ _ _ _ _ _ _ _ _ _ _ _ _ _ _ _ V) Hin).
+    - apply (sv_opU _ _ _ _ _ _ _ _ _ _ _ _ _ _ _ _ V) in Hin. lia.
+    - right. apply (Hcase _ _ (sv_cL _ _ _ _ _ _ _ _ _ _ _ _ _ _ _ _ V) (sv_chL _ _ _ _ _ _ _ _ _ _ _ _ _ _ _ _ V) Hin).
+    - apply (sv_opL _ _ _ _ _ _ _ _ _ _ _ _ _ _ _ _ V) in Hin. lia.
+  Qed.
+
+  Lemma svw_chU_NoDup : NoDup chU.
+  Proof. apply (sp_NoDup_app_l _ _ svw_ch_NoDup). Qed.
+  Lemma svw_chL_NoDup : NoDup chL.
+  Proof. apply (sp_NoDup_app_r _ _ svw_ch_NoDup). Qed.
+
+  Lemma svw_len_cU : length cU = length chU.
+  Proof. pose proof (f_equal (@length _) (sv_cU _ _ _ _ _ _ _ _ _ _ _ _ _ _ _ _ V)) as E. rewrite !map_length in E. symmetry. exact E. Qed.
+  Lemma svw_len_cL : length cL = length chL.
+  Proof. pose proof (f_equal (@length _) (sv_cL _ _ _ _ _ _ _ _ _ _ _ _ _ _ _ _ V)) as E. rewrite !map_length in E. symmetry. exact E. Qed.
+
+  (* ---- dimensions and tensors of the old part ------------------------------------------------------ *)
+  Lemma svw_wdim w : w < b -> wdim s' w = wdim s1 w.
+  Proof.
+    intros Hw. unfold wdim. rewrite (sv_dims _ _ _ _ _ _ _ _ _ _ _ _ _ _ _ _ V).
+    rewrite sp_aget_snoc_other; [reflexivity|]. fold b. lia.
+  Qed.
+
+  Lemma svw_tens_old k : k <> n -> In k (akeys (nodes s1)) -> aget k (tensors s') = aget k (tensors s1).
+  Proof.
+    intros Hne Hk. destruct (svw_old_fresh k Hk Hne) as [H1 H2].
+    rewrite (sv_told _ _ _ _ _ _ _ _ _ _ _ _ _ _ _ _ V k H1 H2). destruct (Nat.eqb_spec k n); [contradiction|reflexivity].
+  Qed.
+
+  Lemma svw_tens_U : tens s' U = tU.
+  Proof. apply tens_aget. apply (sv_tU _ _ _ _ _ _ _ _ _ _ _ _ _ _ _ _ V). Qed.
+  Lemma svw_tens_L : tens s' Lo = tL.
+  Proof. apply tens_aget. apply (sv_tL _ _ _ _ _ _ _ _ _ _ _ _ _ _ _ _ V). Qed.
+
+  (* ---- old nodes: what is preserved --------------------------------------------------------------- *)
+  Lemma svw_old k nk : k <> n -> aget k (nodes s1) = Some nk ->
+    exists nk', aget k (nodes s') = Some nk' /\ perm nk' = perm nk /\ shape nk' = shape nk /\
+      nparents nk' = nparents nk /\ length (children nk') = length (children nk) /\
+      tens s' k = tens s1 k /\ k <> U /\ k <> Lo /\
+      (In k chU -> parent nk' = Some U /\ parent nk = Some n) /\
+      (In k chL -> parent nk' = Some Lo /\ parent nk = Some n) /\
+      (~ In k chU -> ~ In k chL -> parent nk' = parent nk /\ parent nk <> Some n) /\
+      (parent nd = Some k -> children nk' = replace_first n U (children nk)) /\
+      (parent nd <> Some k -> children nk' = children nk).
+  Proof.
+    intros Hne E. destruct (sv_old _ _ _ _ _ _ _ _ _ _ _ _ _ _ _ _ V k nk Hne E) as (nk' & E' & P1 & P2 & P3 & P4 & P5 & P6 & P7).
+    pose proof (aget_Some_keys _ _ _ E) as Hk. destruct (svw_old_fresh k Hk Hne) as [F1 F2].
+    assert (HchU : In k chU -> parent nk' = Some U /\ parent nk = Some n).
+    { intros Hin. split; [apply P3; exact Hin|].
+      destruct (svw_child k (sv_chU _ _ _ _ _ _ _ _ _ _ _ _ _ _ _ _ V k Hin)) as (cn & Ec & Epc & _). congruence. }
+    assert (HchL : In k chL -> parent nk' = Some Lo /\ parent nk = Some n).
+    { intros Hin. split; [apply P4; exact Hin|].
+      destruct (svw_child k (sv_chL _ _ _ _ _ _ _ _ _ _ _ _ _ _ _ _ V k Hin)) as (cn & Ec & Epc & _). congruence. }
+    assert (Hoth : ~ In k chU -> ~ In k chL -> parent nk' = parent nk /\ parent nk <> Some n).
+    { intros N1 N2. split; [apply P5; assumption|]. intros Hp.
+      destruct (ni_par _ _ _ (wf_node s1 H k nk E) n Hp) as (pn & i & Epn & Hin & _).
+      rewrite En in Epn. injection Epn as <-. destruct (svw_ch_cover k Hin); contradiction. }
+    exists nk'. split; [exact E'|]. split; [exact P1|]. split; [exact P2|]. split; [|split]; [| |split; [|auto 10]].
+    - unfold nparents.
+      destruct (in_dec Nat.eq_dec k chU) as [I1|N1]; [destruct (HchU I1) as [-> ->]; reflexivity|].
+      destruct (in_dec Nat.eq_dec k chL) as [I2|N2]; [destruct (HchL I2) as [-> ->]; reflexivity|].
+      destruct (Hoth N1 N2) as [-> _]. reflexivity.
+    - destruct (option_eq_dec_id (parent nd) (Some k)) as [Ep|Ep].
+      + rewrite (P6 Ep). apply sp_replace_first_length.
+      + rewrite (P7 Ep). reflexivity.
+    - unfold tens. rewrite (svw_tens_old k Hne Hk). reflexivity.
+  Qed.
+
+  Lemma svw_old_lax k nk nk' : k <> n -> aget k (nodes s1) = Some nk -> perm nk' = perm nk ->
+    lax s' k nk' = lax s1 k nk.
+  Proof.
+    intros Hne E P. destruct (svw_old k nk Hne E) as (_ & _ & _ & _ & _ & _ & Ht & _).
+    unfold lax, laxes. rewrite Ht, P. reflexivity.
+  Qed.
+
+  (* every node of s' is U, Lo or an old node *)
+  Lemma svw_class k nk' : aget k (nodes s') = Some nk' ->
+    (k = U /\ nk' = nU) \/ (k = Lo /\ nk' = nL) \/
+    (k <> U /\ k <> Lo /\ k <> n /\ exists nk, aget k (nodes s1) = Some nk).
+  Proof.
+    intros E. destruct (sv_keys _ _ _ _ _ _ _ _ _ _ _ _ _ _ _ _ V k (aget_Some_keys _ _ _ E)) as [->|[->|[Hne Hk]]].
+    - left. split; [reflexivity|]. rewrite (sv_nU _ _ _ _ _ _ _ _ _ _ _ _ _ _ _ _ V) in E. congruence.
+    - right. left. split; [reflexivity|]. rewrite (sv_nL _ _ _ _ _ _ _ _ _ _ _ _ _ _ _ _ V) in E. congruence.
+    - destruct (Nat.eq_dec k U) as [->|N1]; [left; split; [reflexivity|]; rewrite (sv_nU _ _ _ _ _ _ _ _ _ _ _ _ _ _ _ _ V) in E; congruence|].
+      destruct (Nat.eq_dec k Lo) as [->|N2]; [right; left; split; [reflexivity|]; rewrite (sv_nL _ _ _ _ _ _ _ _ _ _ _ _ _ _ _ _ V) in E; congruence|].
+      right. right. repeat split; auto. apply keys_aget. exact Hk.
+  Qed.
+
+  (* ---- the logical axes of the new nodes ------------------------------------------------------------ *)
+  Let LU := firstn v W ++ b :: permute 0 (cU ++ ls_open su) W.
+  Let LL := b :: permute 0 (cL ++ ls_open sl) W.
+
+  Lemma svw_lax_U : lax s' U nU = LU.
+  Proof. unfold lax. rewrite svw_tens_U. apply (sv_nU_lax _ _ _ _ _ _ _ _ _ _ _ _ _ _ _ _ V). Qed.
+  Lemma svw_lax_L : lax s' Lo nL = LL.
+  Proof. unfold lax. rewrite svw_tens_L. apply (sv_nL_lax _ _ _ _ _ _ _ _ _ _ _ _ _ _ _ _ V). Qed.
+
+  Lemma svw_len_fv : length (firstn v W) = v.
+  Proof. rewrite firstn_length. pose proof svw_virt. pose proof svw_v_le. lia. Qed.
+
+  Lemma svw_nparents_U : nparents nU = v.
+  Proof. unfold v. apply nparents_ext. apply (sv_nU_par _ _ _ _ _ _ _ _ _ _ _ _ _ _ _ _ V). Qed.
+  Lemma svw_nparents_L : nparents nL = 1.
+  Proof. unfold nparents. rewrite (sv_nL_par _ _ _ _ _ _ _ _ _ _ _ _ _ _ _ _ V). reflexivity. Qed.
+  Lemma svw_nvirt_U : nvirt nU = v + S (length cU).
+  Proof. unfold nvirt. rewrite svw_nparents_U, (sv_nU_ch _ _ _ _ _ _ _ _ _ _ _ _ _ _ _ _ V). cbn. fold chU. rewrite svw_len_cU. reflexivity. Qed.
+  Lemma svw_nvirt_L : nvirt nL = S (length cL).
+  Proof. unfold nvirt. rewrite svw_nparents_L, (sv_nL_ch _ _ _ _ _ _ _ _ _ _ _ _ _ _ _ _ V). fold chL. rewrite svw_len_cL. reflexivity. Qed.
+
+  Lemma svw_nlegs_U : nlegs nU = v + S (length cU + length (ls_open su)).
+  Proof.
+    rewrite <- (laxes_length nU tU), (sv_nU_lax _ _ _ _ _ _ _ _ _ _ _ _ _ _ _ _ V).
+    fold W v b. rewrite app_length, svw_len_fv. cbn [length]. rewrite permute_length, app_length. reflexivity.
+  Qed.
+  Lemma svw_nlegs_L : nlegs nL = S (length cL + length (ls_open sl)).
+  Proof.
+    rewrite <- (laxes_length nL tL), (sv_nL_lax _ _ _ _ _ _ _ _ _ _ _ _ _ _ _ _ V).
+    cbn [length]. rewrite permute_length, app_length. reflexivity.
+  Qed.
+
+  Lemma svw_fv_permute : firstn v W = permute 0 (seq 0 v) W.
+  Proof. unfold permute. rewrite map_nth_seq by (pose proof svw_virt; pose proof svw_v_le; ulia). reflexivity. Qed.
+
+  Lemma svw_open_U : open_of nU tU = permute 0 (ls_open su) W.
+  Proof.
+    unfold open_of. rewrite (sv_nU_lax _ _ _ _ _ _ _ _ _ _ _ _ _ _ _ _ V). fold W v b. rewrite svw_nvirt_U.
+    rewrite sp_permute_app.
+    change (firstn v W ++ b :: permute 0 cU W ++ permute 0 (ls_open su) W)
+      with (firstn v W ++ (b :: permute 0 cU W) ++ permute 0 (ls_open su) W).
+    rewrite app_assoc. apply sp_skipn_app_exact. rewrite app_length. cbn [length]. rewrite permute_length.
+    pose proof svw_len_fv. ulia.
+  Qed.
+
+  Lemma svw_own_U : own_of nU tU = permute 0 (seq 0 v ++ ls_open su) W.
+  Proof.
+    unfold own_of. fold (open_of nU tU). rewrite svw_open_U.
+    rewrite (sv_nU_lax _ _ _ _ _ _ _ _ _ _ _ _ _ _ _ _ V). fold W v b.
+    rewrite svw_nparents_U. rewrite (sp_firstn_app_exact _ _ v svw_len_fv).
+    rewrite (sp_permute_app 0 (seq 0 v)). rewrite <- svw_fv_permute. reflexivity.
+  Qed.
+
+  Lemma svw_open_L : open_of nL tL = permute 0 (ls_open sl) W.
+  Proof.
+    unfold open_of. rewrite (sv_nL_lax _ _ _ _ _ _ _ _ _ _ _ _ _ _ _ _ V). fold W b. rewrite svw_nvirt_L.
+    rewrite sp_permute_app. change (b :: permute 0 cL W ++ permute 0 (ls_open sl) W) with ((b :: permute 0 cL W) ++ permute 0 (ls_open sl) W).
+    apply sp_skipn_app_exact. cbn [length]. rewrite permute_length. reflexivity.
+  Qed.
+
+  Lemma svw_own_L : own_of nL tL = b :: permute 0 (ls_open sl) W.
+  Proof.
+    unfold own_of. fold (open_of nL tL). rewrite svw_open_L. rewrite svw_nparents_L.
+    rewrite (sv_nL_lax _ _ _ _ _ _ _ _ _ _ _ _ _ _ _ _ V). reflexivity.
+  Qed.
+
+  (* wires owned by the new nodes were owned by n (or are the new bond) *)
+  Lemma svw_own_idx_ok i : In i (seq 0 v ++ ls_open su) \/ In i (ls_open sl) ->
+    In i (seq 0 v ++ (cU ++ ls_open su) ++ (cL ++ ls_open sl)) /\ (i < v \/ nvirt nd <= i).
+  Proof.
+    intros [Hi|Hi].
+    - apply in_app_or in Hi. destruct Hi as [Hi|Hi].
+      + split; [apply in_or_app; left; exact Hi|]. apply in_seq in Hi. lia.
+      + split; [|right; apply (sv_opU _ _ _ _ _ _ _ _ _ _ _ _ _ _ _ _ V); exact Hi].
+        apply in_or_app. right. apply in_or_app. left. apply in_or_app. right. exact Hi.
+    - split; [|right; apply (sv_opL _ _ _ _ _ _ _ _ _ _ _ _ _ _ _ _ V); exact Hi].
+      apply in_or_app. right. apply in_or_app. right. apply in_or_app. right. exact Hi.
+  Qed.
+
+  Lemma svw_own_from_n i : In i (seq 0 v ++ ls_open su) \/ In i (ls_open sl) -> In (nth i W 0) (own_of nd (tens s1 n)).
+  Proof.
+    intros Hi. destruct (svw_own_idx_ok i Hi) as [H1 H2]. apply svw_perm_lt in H1.
+    pose proof svw_lax_n as EL. unfold lax in EL. rewrite <- EL. destruct H2 as [H2|H2].
+    - apply sp_own_of_nth_lo; [exact H2|]. fold v. pose proof svw_virt. pose proof svw_v_le. rewrite svw_nlegs. lia.
+    - apply sp_own_of_nth_hi. rewrite svw_nlegs. lia.
+  Qed.
+
+  (* ---- field 3: every tensor key is a node key ------------------------------------------------------ *)
+  Lemma svw_tn k : amem k (tensors s') = true -> amem k (nodes s') = true.
+  Proof.
+    intros Hk. apply amem_aget in Hk. destruct Hk as [tk Htk]. apply amem_aget.
+    destruct (Nat.eq_dec k U) as [->|N1]; [eexists; apply (sv_nU _ _ _ _ _ _ _ _ _ _ _ _ _ _ _ _ V)|].
+    destruct (Nat.eq_dec k Lo) as [->|N2]; [eexists; apply (sv_nL _ _ _ _ _ _ _ _ _ _ _ _ _ _ _ _ V)|].
+    rewrite (sv_told _ _ _ _ _ _ _ _ _ _ _ _ _ _ _ _ V k N1 N2) in Htk.
+    destruct (Nat.eqb_spec k n) as [|Hne]; [discriminate|].
+    assert (Hm : amem k (nodes s1) = true) by (apply (wf_tn s1 H); apply amem_aget; eauto).
+    apply amem_aget in Hm. destruct Hm as [nk Enk].
+    destruct (svw_old k nk Hne Enk) as (nk' & E' & _). eauto.
+  Qed.
+
+  (* ---- field 4: the root ------------------------------------------------------------------------------ *)
+  Lemma svw_root : exists r rn, root s' = Some r /\ aget r (nodes s') = Some rn /\ parent rn = None
+                         /\ forall k nk, aget k (nodes s') = Some nk -> parent nk = None -> k = r.
+  Proof.
+    destruct (wf_root s1 H) as (r & rn & Hr & Er & Hpr & Huniq).
+    assert (Hold_none : forall k nk', k <> U -> k <> Lo -> aget k (nodes s') = Some nk' -> parent nk' = None ->
+              exists nk, k <> n /\ aget k (nodes s1) = Some nk /\ parent nk = None).
+    { intros k nk' N1 N2 E Hp. destruct (svw_class k nk' E) as [[-> _]|[[-> _]|(_ & _ & Hne & nk & Enk)]]; [contradiction|contradiction|].
+      destruct (svw_old k nk Hne Enk) as (nk2 & E2 & _ & _ & _ & _ & _ & _ & _ & C1 & C2 & C3 & _).
+      rewrite E in E2. injection E2 as <-. exists nk. split; [exact Hne|split; [exact Enk|]].
+      destruct (in_dec Nat.eq_dec k chU) as [I1|I1]; [destruct (C1 I1); congruence|].
+      destruct (in_dec Nat.eq_dec k chL) as [I2|I2]; [destruct (C2 I2); congruence|].
+      destruct (C3 I1 I2). congruence. }
+    destruct (parent nd) as [p|] eqn:Ep.
+    - (* the root is unchanged *)
+      assert (Hrn : r <> n). { intros ->. rewrite En in Er. injection Er as <-. congruence. }
+      destruct (svw_old r rn Hrn Er) as (rn' & E' & _ & _ & _ & _ & _ & _ & _ & C1 & C2 & C3 & _).
+      exists r, rn'. split; [rewrite (sv_root _ _ _ _ _ _ _ _ _ _ _ _ _ _ _ _ V), Ep; exact Hr|]. split; [exact E'|]. split.
+      + destruct (in_dec Nat.eq_dec r chU) as [I1|I1]; [destruct (C1 I1); congruence|].
+        destruct (in_dec Nat.eq_dec r chL) as [I2|I2]; [destruct (C2 I2); congruence|].
+        destruct (C3 I1 I2). congruence.
+      + intros k nk' E Hp. destruct (Nat.eq_dec k U) as [->|N1].
+        { rewrite (sv_nU _ _ _ _ _ _ _ _ _ _ _ _ _ _ _ _ V) in E. injection E as <-.
+          rewrite (sv_nU_par _ _ _ _ _ _ _ _ _ _ _ _ _ _ _ _ V), Ep in Hp. discriminate. }
+        destruct (Nat.eq_dec k Lo) as [->|N2].
+        { rewrite (sv_nL _ _ _ _ _ _ _ _ _ _ _ _ _ _ _ _ V) in E. injection E as <-.
+          rewrite (sv_nL_par _ _ _ _ _ _ _ _ _ _ _ _ _ _ _ _ V) in Hp. discriminate. }
+        destruct (Hold_none k nk' N1 N2 E Hp) as (nk & _ & Enk & Hpk). apply (Huniq k nk Enk Hpk).
+    - (* n was the root; U is the new root *)
+      assert (Hrn : r = n) by (symmetry; apply (Huniq n nd En Ep)).
+      exists U, nU. split; [rewrite (sv_root _ _ _ _ _ _ _ _ _ _ _ _ _ _ _ _ V), Ep; reflexivity|].
+      split; [apply (sv_nU _ _ _ _ _ _ _ _ _ _ _ _ _ _ _ _ V)|]. split; [rewrite (sv_nU_par _ _ _ _ _ _ _ _ _ _ _ _ _ _ _ _ V); exact Ep|].
+      intros k nk' E Hp. destruct (Nat.eq_dec k U) as [->|N1]; [reflexivity|]. exfalso.
+      destruct (Nat.eq_dec k Lo) as [->|N2].
+      { rewrite (sv_nL _ _ _ _ _ _ _ _ _ _ _ _ _ _ _ _ V) in E. injection E as <-.
+        rewrite (sv_nL_par _ _ _ _ _ _ _ _ _ _ _ _ _ _ _ _ V) in Hp. discriminate. }
+      destruct (Hold_none k nk' N1 N2 E Hp) as (nk & Hne & Enk & Hpk). apply Hne. rewrite <- Hrn. apply (Huniq k nk Enk Hpk).
+  Qed.
+
+  (* ---- field 5: the node invariant ---------------------------------------------------------------------- *)
+  Lemma svw_U_notin_children k nk : aget k (nodes s1) = Some nk -> ~ In U (children nk) \/ U = n.
+  Proof.
+    intros E. destruct (sv_U _ _ _ _ _ _ _ _ _ _ _ _ _ _ _ _ V) as [->|Hf]; [right; reflexivity|left].
+    intros Hin. destruct (ni_ch _ _ _ (wf_node s1 H k nk E) U Hin) as (cn & Ec & _). apply Hf. eapply aget_Some_keys; eauto.
+  Qed.
+
+  Lemma svw_parent_not_new k nk x : aget k (nodes s1) = Some nk -> x = n \/ ~ In x (akeys (nodes s1)) ->
+    parent nk <> Some n -> parent nk <> Some x.
+  Proof.
+    intros E [->|Hf] Hp; [exact Hp|]. intros Hq.
+    destruct (ni_par _ _ _ (wf_node s1 H k nk E) x Hq) as (pn & i & Epn & _). apply Hf. eapply aget_Some_keys; eauto.
+  Qed.
+
+  Lemma svw_node_U : node_inv s' U nU.
+  Proof.
+    constructor.
+    - apply amem_aget. eexists. apply (sv_tU _ _ _ _ _ _ _ _ _ _ _ _ _ _ _ _ V).
+    - apply (sv_nU_perm _ _ _ _ _ _ _ _ _ _ _ _ _ _ _ _ V).
+    - rewrite svw_tens_U. apply (sv_nU_shape _ _ _ _ _ _ _ _ _ _ _ _ _ _ _ _ V).
+    - rewrite svw_nvirt_U, svw_nlegs_U. lia.
+    - rewrite (sv_nU_ch _ _ _ _ _ _ _ _ _ _ _ _ _ _ _ _ V). constructor; [|apply svw_chU_NoDup].
+      intros Hin. destruct (svw_child Lo (sv_chU _ _ _ _ _ _ _ _ _ _ _ _ _ _ _ _ V Lo Hin)) as (_ & _ & _ & _ & _ & Hx & _). congruence.
+    - intros c Hc. rewrite (sv_nU_ch _ _ _ _ _ _ _ _ _ _ _ _ _ _ _ _ V) in Hc. destruct Hc as [<-|Hc].
+      + exists nL. split; [apply (sv_nL _ _ _ _ _ _ _ _ _ _ _ _ _ _ _ _ V)|apply (sv_nL_par _ _ _ _ _ _ _ _ _ _ _ _ _ _ _ _ V)].
+      + destruct (svw_child c (sv_chU _ _ _ _ _ _ _ _ _ _ _ _ _ _ _ _ V c Hc)) as (cn & Ec & _ & Hne & _).
+        destruct (svw_old c cn Hne Ec) as (cn' & E' & _ & _ & _ & _ & _ & _ & _ & C1 & _).
+        exists cn'. split; [exact E'|]. apply (C1 Hc).
+    - intros p Hp. rewrite (sv_nU_par _ _ _ _ _ _ _ _ _ _ _ _ _ _ _ _ V) in Hp.
+      destruct (svw_parent p Hp) as (pn & i & Epn & Hin & Hni & Hw & Hpn & HpU & HpL & Hppn & Hpc).
+      destruct (svw_old p pn Hpn Epn) as (pn' & E' & P1 & _ & P3 & _ & _ & _ & _ & C1 & C2 & C3 & C4 & _).
+      assert (NU : ~ In p chU) by (intros Hx; apply Hpc; apply (sv_chU _ _ _ _ _ _ _ _ _ _ _ _ _ _ _ _ V); exact Hx).
+      assert (NL : ~ In p chL) by (intros Hx; apply Hpc; apply (sv_chL _ _ _ _ _ _ _ _ _ _ _ _ _ _ _ _ V); exact Hx).
+      destruct (C3 NU NL) as [Epp _]. specialize (C4 Hp).
+      exists pn', i. split; [exact E'|]. split; [rewrite C4; apply sp_In_replace_first_new; exact Hin|]. split.
+      + assert (HpU' : parent pn <> Some U) by (apply (svw_parent_not_new p pn U Epn (sv_U _ _ _ _ _ _ _ _ _ _ _ _ _ _ _ _ V) Hppn)).
+        rewrite (neighbour_index_child pn' U) by congruence. rewrite (neighbour_index_child pn n Hppn) in Hni.
+        rewrite P3, C4. rewrite (sp_index_of_replace_first_new n U (children pn) (svw_U_notin_children p pn Epn)). exact Hni.
+      + rewrite svw_lax_U. rewrite (svw_old_lax p pn pn' Hpn Epn P1). rewrite <- Hw.
+        unfold LU. assert (Hv1 : v = 1) by (unfold v, nparents; rewrite Hp; reflexivity).
+        rewrite app_nth1 by (rewrite svw_len_fv; lia). apply sp_nth_firstn. lia.
+  Qed.
+
+  Lemma svw_node_L : node_inv s' Lo nL.
+  Proof.
+    constructor.
+    - apply amem_aget. eexists. apply (sv_tL _ _ _ _ _ _ _ _ _ _ _ _ _ _ _ _ V).
+    - apply (sv_nL_perm _ _ _ _ _ _ _ _ _ _ _ _ _ _ _ _ V).
+    - rewrite svw_tens_L. apply (sv_nL_shape _ _ _ _ _ _ _ _ _ _ _ _ _ _ _ _ V).
+    - rewrite svw_nvirt_L, svw_nlegs_L. lia.
+    - rewrite (sv_nL_ch _ _ _ _ _ _ _ _ _ _ _ _ _ _ _ _ V). apply svw_chL_NoDup.
+    - intros c Hc. rewrite (sv_nL_ch _ _ _ _ _ _ _ _ _ _ _ _ _ _ _ _ V) in Hc.
+      destruct (svw_child c (sv_chL _ _ _ _ _ _ _ _ _ _ _ _ _ _ _ _ V c Hc)) as (cn & Ec & _ & Hne & _).
+      destruct (svw_old c cn Hne Ec) as (cn' & E' & _ & _ & _ & _ & _ & _ & _ & _ & C2 & _).
+      exists cn'. split; [exact E'|]. apply (C2 Hc).
+    - intros p Hp. rewrite (sv_nL_par _ _ _ _ _ _ _ _ _ _ _ _ _ _ _ _ V) in Hp. injection Hp as <-.
+      exists nU, v. split; [apply (sv_nU _ _ _ _ _ _ _ _ _ _ _ _ _ _ _ _ V)|].
+      split; [rewrite (sv_nU_ch _ _ _ _ _ _ _ _ _ _ _ _ _ _ _ _ V); left; reflexivity|]. split.
+      + assert (Hx : parent nU <> Some Lo).
+        { rewrite (sv_nU_par _ _ _ _ _ _ _ _ _ _ _ _ _ _ _ _ V). intros Hq.
+          destruct (svw_parent Lo Hq) as (_ & _ & _ & _ & _ & _ & _ & _ & Hc & _). congruence. }
+        rewrite (neighbour_index_child nU Lo Hx), (sv_nU_ch _ _ _ _ _ _ _ _ _ _ _ _ _ _ _ _ V). cbn. rewrite Nat.eqb_refl. cbn.
+        rewrite svw_nparents_U. f_equal. lia.
+      + rewrite svw_lax_U, svw_lax_L. unfold LU, LL. cbn [nth].
+        symmetry. apply sp_nth_app_exact. apply svw_len_fv.
+  Qed.
+
+  (* the parent wire of a listed child, as an entry of the new node's axis list *)
+  Lemma svw_child_wire (ch : list id) (cl : list nat) k nk :
+    map (neighbour_index nd) ch = map Some cl -> incl ch (children nd) -> NoDup ch -> In k ch ->
+    aget k (nodes s1) = Some nk ->
+    exists j, j < length ch /\ index_of k ch = Some j /\
+              forall op, nth 0 (lax s1 k nk) 0 = nth j (permute 0 (cl ++ op) W) 0.
+  Proof.
+    intros Hm Hincl Hnd Hin E. destruct (In_nth _ _ 0 Hin) as (j & Hj & Ej). exists j. split; [exact Hj|]. split.
+    - rewrite <- Ej. apply index_of_nth; assumption.
+    - intros op. destruct (svw_leg_of ch cl j Hm Hincl Hj) as (Hni & _ & _). unfold id in *. rewrite Ej in Hni.
+      destruct (svw_child k (Hincl k Hin)) as (cn & Ec & Epc & _). rewrite E in Ec. injection Ec as <-.
+      destruct (ni_par _ _ _ (wf_node s1 H k nk E) n Epc) as (pn & i & Epn & _ & Hni' & Hw).
+      rewrite En in Epn. injection Epn as <-. rewrite Hni in Hni'. injection Hni' as <-.
+      rewrite Hw, svw_lax_n.
+      assert (Hlen : length cl = length ch).
+      { apply (f_equal (@length _)) in Hm. rewrite !map_length in Hm. symmetry. exact Hm. }
+      rewrite sp_nth_permute by (rewrite app_length; lia). rewrite app_nth1 by lia. reflexivity.
+  Qed.
+
+  Lemma svw_node_old k nk nk' : k <> n -> aget k (nodes s1) = Some nk -> aget k (nodes s') = Some nk' -> node_inv s' k nk'.
+  Proof.
+    intros Hne E E'. pose proof (wf_node s1 H k nk E) as Hn.
+    destruct (svw_old k nk Hne E) as (nk2 & E2 & P1 & P2 & P3 & P4 & P5 & P6 & P7 & C1 & C2 & C3 & C4 & C5).
+    rewrite E' in E2. injection E2 as <-.
+    pose proof (aget_Some_keys _ _ _ E) as Hk.
+    assert (Hlax : lax s' k nk' = lax s1 k nk) by (apply svw_old_lax; assumption).
+    constructor.
+    - apply amem_aget. rewrite (svw_tens_old k Hne Hk). apply amem_aget. apply (ni_t _ _ _ Hn).
+    - rewrite P1, P2. apply (ni_perm _ _ _ Hn).
+    - rewrite P2, P5, (ni_shape _ _ _ Hn). apply map_ext_in. intros w Hw. symmetry. apply svw_wdim.
+      apply (wf_wires s1 H k (tens s1 k) w (wf_tens s1 k nk H E) Hw).
+    - unfold nvirt, nlegs. rewrite P3, P4, P1. apply (ni_virt _ _ _ Hn).
+    - destruct (option_eq_dec_id (parent nd) (Some k)) as [Ep|Ep].
+      + rewrite (C4 Ep). apply sp_NoDup_replace_first; [apply (ni_chnd _ _ _ Hn)|apply (svw_U_notin_children k nk E)].
+      + rewrite (C5 Ep). apply (ni_chnd _ _ _ Hn).
+    - (* children *)
+      assert (Hoc : forall c, In c (children nk) -> c <> n -> exists cn', aget c (nodes s') = Some cn' /\ parent cn' = Some k).
+      { intros c Hc Hcn. destruct (ni_ch _ _ _ Hn c Hc) as (cn & Ec & Epc).
+        destruct (svw_old c cn Hcn Ec) as (cn' & Ec' & _ & _ & _ & _ & _ & _ & _ & D1 & D2 & D3 & _).
+        exists cn'. split; [exact Ec'|].
+        destruct (in_dec Nat.eq_dec c chU) as [I1|I1]; [destruct (D1 I1); congruence|].
+        destruct (in_dec Nat.eq_dec c chL) as [I2|I2]; [destruct (D2 I2); congruence|].
+        destruct (D3 I1 I2). congruence. }
+      intros c Hc. destruct (option_eq_dec_id (parent nd) (Some k)) as [Ep|Ep].
+      + rewrite (C4 Ep) in Hc. apply (sp_In_replace_first _ _ _ _ (ni_chnd _ _ _ Hn)) in Hc.
+        destruct Hc as [[-> _]|[Hc Hcn]]; [|apply Hoc; assumption].
+        exists nU. split; [apply (sv_nU _ _ _ _ _ _ _ _ _ _ _ _ _ _ _ _ V)|]. rewrite (sv_nU_par _ _ _ _ _ _ _ _ _ _ _ _ _ _ _ _ V). exact Ep.
+      + rewrite (C5 Ep) in Hc. apply Hoc; [exact Hc|]. intros ->.
+        destruct (ni_ch _ _ _ Hn n Hc) as (cn & Ec & Epc). rewrite En in Ec. injection Ec as <-. contradiction.
+    - (* parent *)
+      intros q Hq. destruct (in_dec Nat.eq_dec k chU) as [I1|I1]; [|destruct (in_dec Nat.eq_dec k chL) as [I2|I2]].
+      + destruct (C1 I1) as [Hp' Hp]. rewrite Hp' in Hq. injection Hq as <-.
+        destruct (svw_child_wire chU cU k nk (sv_cU _ _ _ _ _ _ _ _ _ _ _ _ _ _ _ _ V) (sv_chU _ _ _ _ _ _ _ _ _ _ _ _ _ _ _ _ V) svw_chU_NoDup I1 E)
+          as (j & Hj & Hix & Hw).
+        exists nU, (v + S j). split; [apply (sv_nU _ _ _ _ _ _ _ _ _ _ _ _ _ _ _ _ V)|].
+        split; [rewrite (sv_nU_ch _ _ _ _ _ _ _ _ _ _ _ _ _ _ _ _ V); right; exact I1|]. split.
+        * assert (Hx : parent nU <> Some k).
+          { rewrite (sv_nU_par _ _ _ _ _ _ _ _ _ _ _ _ _ _ _ _ V).
+            destruct (svw_child k (sv_chU _ _ _ _ _ _ _ _ _ _ _ _ _ _ _ _ V k I1)) as (_ & _ & _ & _ & _ & _ & Hx). exact Hx. }
+          rewrite (neighbour_index_child nU k Hx), (sv_nU_ch _ _ _ _ _ _ _ _ _ _ _ _ _ _ _ _ V). cbn [index_of].
+          destruct (Nat.eqb_spec k Lo) as [|_]; [contradiction|]. fold chU. rewrite Hix. cbn. rewrite svw_nparents_U. reflexivity.
+        * rewrite Hlax, svw_lax_U. unfold LU. rewrite app_nth2 by (rewrite svw_len_fv; lia). rewrite svw_len_fv.
+          replace (v + S j - v) with (S j) by lia. cbn [nth]. apply Hw.
+      + destruct (C2 I2) as [Hp' Hp]. rewrite Hp' in Hq. injection Hq as <-.
+        destruct (svw_child_wire chL cL k nk (sv_cL _ _ _ _ _ _ _ _ _ _ _ _ _ _ _ _ V) (sv_chL _ _ _ _ _ _ _ _ _ _ _ _ _ _ _ _ V) svw_chL_NoDup I2 E)
+          as (j & Hj & Hix & Hw).
+        exists nL, (S j). split; [apply (sv_nL _ _ _ _ _ _ _ _ _ _ _ _ _ _ _ _ V)|].
+        split; [rewrite (sv_nL_ch _ _ _ _ _ _ _ _ _ _ _ _ _ _ _ _ V); exact I2|]. split.
+        * assert (Hx : parent nL <> Some k) by (rewrite (sv_nL_par _ _ _ _ _ _ _ _ _ _ _ _ _ _ _ _ V); congruence).
+          rewrite (neighbour_index_child nL k Hx), (sv_nL_ch _ _ _ _ _ _ _ _ _ _ _ _ _ _ _ _ V). fold chL. rewrite Hix. cbn.
+          rewrite svw_nparents_L. reflexivity.
+        * rewrite Hlax, svw_lax_L. unfold LL. cbn [nth]. apply Hw.
+      + destruct (C3 I1 I2) as [Hp' Hp]. rewrite Hp' in Hq.
+        destruct (ni_par _ _ _ Hn q Hq) as (qn & i & Eqn & Hin & Hni & Hw).
+        assert (Hqn : q <> n) by congruence.
+        destruct (svw_old q qn Hqn Eqn) as (qn' & Eq' & Q1 & Q2 & Q3 & Q4 & Q5 & Q6 & Q7 & D1 & D2 & D3 & D4 & D5).
+        assert (Hpq : parent qn <> Some k) by (eapply wf_parent_not_child; eauto).
+        assert (Hpq' : parent qn' <> Some k).
+        { destruct (in_dec Nat.eq_dec q chU) as [J1|J1]; [destruct (D1 J1); congruence|].
+          destruct (in_dec Nat.eq_dec q chL) as [J2|J2]; [destruct (D2 J2); congruence|].
+          destruct (D3 J1 J2). congruence. }
+        exists qn', i. split; [exact Eq'|].
+        assert (Hch : In k (children qn') /\ index_of k (children qn') = index_of k (children qn)).
+        { destruct (option_eq_dec_id (parent nd) (Some q)) as [Ep|Ep].
+          - rewrite (D4 Ep). split; [apply sp_In_replace_first_other; assumption|].
+            apply sp_index_of_replace_first_other; assumption.
+          - rewrite (D5 Ep). split; [exact Hin|reflexivity]. }
+        destruct Hch as [Hch1 Hch2]. split; [exact Hch1|]. split.
+        * rewrite (sp_neighbour_index_same qn' qn k Hpq' Hpq Q3 Hch2). exact Hni.
+        * rewrite Hlax, (svw_old_lax q qn qn' Hqn Eqn Q1). exact Hw.
+  Qed.
+
+  Lemma svw_node k nk' : aget k (nodes s') = Some nk' -> node_inv s' k nk'.
+  Proof.
+    intros E. destruct (svw_class k nk' E) as [[-> ->]|[[-> ->]|(_ & _ & Hne & nk & Enk)]].
+    - apply svw_node_U.
+    - apply svw_node_L.
+    - apply (svw_node_old k nk nk' Hne Enk E).
+  Qed.
+
+  (* ---- fields 6 and 7: owned wires ------------------------------------------------------------------------ *)
+  Lemma svw_own_old k nk nk' : k <> n -> aget k (nodes s1) = Some nk -> aget k (nodes s') = Some nk' ->
+    own_of nk' (tens s' k) = own_of nk (tens s1 k) /\ open_of nk' (tens s' k) = open_of nk (tens s1 k).
+  Proof.
+    intros Hne E E'. destruct (svw_old k nk Hne E) as (nk2 & E2 & P1 & P2 & P3 & P4 & P5 & _).
+    rewrite E' in E2. injection E2 as <-.
+    unfold own_of, open_of, nvirt, laxes. rewrite P1, P3, P4, P5. split; reflexivity.
+  Qed.
+
+  Lemma svw_idx_NoDup : NoDup ((seq 0 v ++ ls_open su) ++ ls_open sl).
+  Proof.
+    pose proof svw_perm_NoDup as Hnd. rewrite <- app_assoc.
+    apply NoDup_app_iff in Hnd. destruct Hnd as (N1 & N2 & N3).
+    apply NoDup_app_iff in N2. destruct N2 as (N4 & N5 & N6).
+    apply sp_NoDup_app_r in N4. apply sp_NoDup_app_r in N5.
+    apply NoDup_app_iff. split; [exact N1|]. split.
+    - apply NoDup_app_iff. split; [exact N4|]. split; [exact N5|].
+      intros x Hx Hy. apply (N6 x); apply in_or_app; right; assumption.
+    - intros x Hx Hy. apply (N3 x Hx). apply in_app_or in Hy.
+      destruct Hy as [Hy|Hy]; apply in_or_app; [left|right]; apply in_or_app; right; exact Hy.
+  Qed.
+
+  Lemma svw_idx_lt i : In i ((seq 0 v ++ ls_open su) ++ ls_open sl) -> i < length W.
+  Proof.
+    intros Hi. apply svw_perm_lt. apply in_app_or in Hi. destruct Hi as [Hi|Hi].
+    - apply (svw_own_idx_ok i (or_introl Hi)).
+    - apply (svw_own_idx_ok i (or_intror Hi)).
+  Qed.
+
+  Lemma svw_own_new_NoDup : NoDup (permute 0 ((seq 0 v ++ ls_open su) ++ ls_open sl) W).
+  Proof. unfold permute. apply NoDup_map_nth; [apply svw_NoDupW|apply svw_idx_NoDup|apply svw_idx_lt]. Qed.
+
+  Lemma svw_b_notin_W : ~ In b W.
+  Proof. intros Hb. apply svw_W_lt in Hb. lia. Qed.
+
+  Lemma svw_permute_incl p : (forall i, In i p -> i < length W) -> incl (permute 0 p W) W.
+  Proof. intros Hp. apply permute_incl. exact Hp. Qed.
+
+  Lemma svw_own1 k nk' : aget k (nodes s') = Some nk' -> NoDup (own_of nk' (tens s' k)).
+  Proof.
+    intros E. pose proof svw_own_new_NoDup as Hnd. rewrite sp_permute_app in Hnd.
+    destruct (svw_class k nk' E) as [[-> ->]|[[-> ->]|(_ & _ & Hne & nk & Enk)]].
+    - rewrite svw_tens_U, svw_own_U. apply (sp_NoDup_app_l _ _ Hnd).
+    - rewrite svw_tens_L, svw_own_L. constructor; [|apply (sp_NoDup_app_r _ _ Hnd)].
+      intros Hin. apply svw_b_notin_W. apply (svw_permute_incl (ls_open sl)); [|exact Hin].
+      intros i Hi. apply svw_idx_lt. apply in_or_app. right. exact Hi.
+    - destruct (svw_own_old k nk nk' Hne Enk E) as [-> _]. apply (wf_own1 s1 H k nk Enk).
+  Qed.
+
+  (* a wire owned by a new node: the bond, or a wire n owned *)
+  Lemma svw_own_U_from w : In w (own_of nU tU) -> In w (own_of nd (tens s1 n)) /\ w <> b.
+  Proof.
+    rewrite svw_own_U. intros Hw. apply sp_permute_In in Hw. destruct Hw as (i & Hi & ->).
+    split; [apply svw_own_from_n; left; exact Hi|]. intros Eb. apply svw_b_notin_W. rewrite <- Eb.
+    apply nth_In. apply svw_idx_lt. apply in_or_app. left. exact Hi.
+  Qed.
+
+  Lemma svw_own_L_from w : In w (own_of nL tL) -> w = b \/ (In w (own_of nd (tens s1 n)) /\ w <> b).
+  Proof.
+    rewrite svw_own_L. intros [<-|Hw]; [left; reflexivity|right]. apply sp_permute_In in Hw. destruct Hw as (i & Hi & ->).
+    split; [apply svw_own_from_n; right; exact Hi|]. intros Eb. apply svw_b_notin_W. rewrite <- Eb.
+    apply nth_In. apply svw_idx_lt. apply in_or_app. right. exact Hi.
+  Qed.
+
+  Lemma svw_own_UL w : In w (own_of nU tU) -> In w (own_of nL tL) -> False.
+  Proof.
+    intros HU HL. pose proof svw_own_new_NoDup as Hnd. rewrite sp_permute_app in Hnd.
+    apply NoDup_app_iff in Hnd. destruct Hnd as (_ & _ & Hd).
+    rewrite svw_own_U in HU. rewrite svw_own_L in HL. destruct HL as [<-|HL].
+    - apply svw_b_notin_W. apply (svw_permute_incl (seq 0 v ++ ls_open su)); [|exact HU].
+      intros i Hi. apply svw_idx_lt. apply in_or_app. left. exact Hi.
+    - apply (Hd w HU HL).
+  Qed.
+
+  Lemma svw_own_old_n k nk w : k <> n -> aget k (nodes s1) = Some nk -> In w (own_of nk (tens s1 k)) ->
+    In w (own_of nd (tens s1 n)) -> False.
+  Proof. intros Hne E H1 H2. apply Hne. apply (wf_own2 s1 H k nk n nd w E En H1 H2). Qed.
+
+  Lemma svw_own_old_b k nk : aget k (nodes s1) = Some nk -> In b (own_of nk (tens s1 k)) -> False.
+  Proof.
+    intros E Hb. apply sp_own_of_incl in Hb. unfold laxes in Hb. apply permute_incl in Hb.
+    - pose proof (wf_wires s1 H k (tens s1 k) b (wf_tens s1 k nk H E) Hb). unfold b in *. lia.
+    - rewrite (wf_axes_length s1 k nk H E). unfold nlegs.
+      apply perm_bound. pose proof (ni_perm _ _ _ (wf_node s1 H k nk E)) as Hp.
+      assert (El : length (perm nk) = length (shape nk)) by (apply Permutation_length in Hp; rewrite seq_length in Hp; exact Hp).
+      rewrite El. exact Hp.
+  Qed.
+
+  Lemma svw_own2 k1 n1 k2 n2 w : aget k1 (nodes s') = Some n1 -> aget k2 (nodes s') = Some n2 ->
+    In w (own_of n1 (tens s' k1)) -> In w (own_of n2 (tens s' k2)) -> k1 = k2.
+  Proof.
+    intros E1 E2 H1 H2.
+    destruct (svw_class k1 n1 E1) as [[-> ->]|[[-> ->]|(_ & _ & Hne1 & m1 & Em1)]];
+    destruct (svw_class k2 n2 E2) as [[-> ->]|[[-> ->]|(_ & _ & Hne2 & m2 & Em2)]].
+    - reflexivity.
+    - exfalso. rewrite svw_tens_U in H1. rewrite svw_tens_L in H2. apply (svw_own_UL w H1 H2).
+    - exfalso. rewrite svw_tens_U in H1. destruct (svw_own_old k2 m2 n2 Hne2 Em2 E2) as [Eo _]. rewrite Eo in H2.
+      destruct (svw_own_U_from w H1) as [Hn _]. apply (svw_own_old_n k2 m2 w Hne2 Em2 H2 Hn).
+    - exfalso. rewrite svw_tens_U in H2. rewrite svw_tens_L in H1. apply (svw_own_UL w H2 H1).
+    - reflexivity.
+    - exfalso. rewrite svw_tens_L in H1. destruct (svw_own_old k2 m2 n2 Hne2 Em2 E2) as [Eo _]. rewrite Eo in H2.
+      destruct (svw_own_L_from w H1) as [->|[Hn _]]; [apply (svw_own_old_b k2 m2 Em2 H2)|apply (svw_own_old_n k2 m2 w Hne2 Em2 H2 Hn)].
+    - exfalso. rewrite svw_tens_U in H2. destruct (svw_own_old k1 m1 n1 Hne1 Em1 E1) as [Eo _]. rewrite Eo in H1.
+      destruct (svw_own_U_from w H2) as [Hn _]. apply (svw_own_old_n k1 m1 w Hne1 Em1 H1 Hn).
+    - exfalso. rewrite svw_tens_L in H2. destruct (svw_own_old k1 m1 n1 Hne1 Em1 E1) as [Eo _]. rewrite Eo in H1.
+      destruct (svw_own_L_from w H2) as [->|[Hn _]]; [apply (svw_own_old_b k1 m1 Em1 H1)|apply (svw_own_old_n k1 m1 w Hne1 Em1 H1 Hn)].
+    - destruct (svw_own_old k1 m1 n1 Hne1 Em1 E1) as [Eo1 _]. rewrite Eo1 in H1.
+      destruct (svw_own_old k2 m2 n2 Hne2 Em2 E2) as [Eo2 _]. rewrite Eo2 in H2.
+      apply (wf_own2 s1 H k1 m1 k2 m2 w Em1 Em2 H1 H2).
+  Qed.
+
+  (* ---- fields 8, 9, 10 and the theorem ----------------------------------------------------------------------- *)
+  Lemma svw_wires k tk w : aget k (tensors s') = Some tk -> In w (axes tk) -> w < next_wire s'.
+  Proof.
+    intros E Hw. rewrite (sv_nw _ _ _ _ _ _ _ _ _ _ _ _ _ _ _ _ V). fold b.
+    assert (Hnew : forall tt, incl (axes tt) (b :: W) -> In w (axes tt) -> w < S b).
+    { intros tt Hi Hin. apply Hi in Hin. destruct Hin as [<-|Hin]; [lia|]. apply svw_W_lt in Hin. lia. }
+    destruct (Nat.eq_dec k U) as [->|N1].
+    { rewrite (sv_tU _ _ _ _ _ _ _ _ _ _ _ _ _ _ _ _ V) in E. injection E as <-.
+      apply (Hnew tU (sv_tU_axes _ _ _ _ _ _ _ _ _ _ _ _ _ _ _ _ V) Hw). }
+    destruct (Nat.eq_dec k Lo) as [->|N2].
+    { rewrite (sv_tL _ _ _ _ _ _ _ _ _ _ _ _ _ _ _ _ V) in E. injection E as <-.
+      apply (Hnew tL (sv_tL_axes _ _ _ _ _ _ _ _ _ _ _ _ _ _ _ _ V) Hw). }
+    rewrite (sv_told _ _ _ _ _ _ _ _ _ _ _ _ _ _ _ _ V k N1 N2) in E. destruct (Nat.eqb k n); [discriminate|].
+    pose proof (wf_wires s1 H k tk w E Hw). unfold b. lia.
+  Qed.
+
+  Lemma svw_dims w : In w (akeys (dims s')) -> w < next_wire s'.
+  Proof.
+    rewrite (sv_dims _ _ _ _ _ _ _ _ _ _ _ _ _ _ _ _ V), (sv_nw _ _ _ _ _ _ _ _ _ _ _ _ _ _ _ _ V), akeys_app. intros Hw.
+    apply in_app_or in Hw. destruct Hw as [Hw|[<-|[]]]; [|cbn; lia]. pose proof (wf_dims s1 H w Hw). lia.
+  Qed.
+
+  Lemma svw_acyc : exists depth : id -> nat,
+    forall c cn p, aget c (nodes s') = Some cn -> parent cn = Some p -> depth p < depth c.
+  Proof.
+    destruct (wf_acyc s1 H) as [d Hd].
+    exists (fun k => if Nat.eqb k U then 2 * d n else if Nat.eqb k Lo then 2 * d n + 1 else 2 * d k).
+    pose proof (sv_UL _ _ _ _ _ _ _ _ _ _ _ _ _ _ _ _ V) as HUL.
+    assert (DU : forall k, k = U -> (if Nat.eqb k U then 2 * d n else if Nat.eqb k Lo then 2 * d n + 1 else 2 * d k) = 2 * d n).
+    { intros k ->. rewrite Nat.eqb_refl. reflexivity. }
+    assert (DL : forall k, k = Lo -> (if Nat.eqb k U then 2 * d n else if Nat.eqb k Lo then 2 * d n + 1 else 2 * d k) = 2 * d n + 1).
+    { intros k ->. destruct (Nat.eqb_spec Lo U); [congruence|]. rewrite Nat.eqb_refl. reflexivity. }
+    assert (DO : forall k, k <> U -> k <> Lo -> (if Nat.eqb k U then 2 * d n else if Nat.eqb k Lo then 2 * d n + 1 else 2 * d k) = 2 * d k).
+    { intros k N1 N2. destruct (Nat.eqb_spec k U); [contradiction|]. destruct (Nat.eqb_spec k Lo); [contradiction|]. reflexivity. }
+    intros c cn p E Hp.
+    destruct (svw_class c cn E) as [[-> ->]|[[-> ->]|(N1 & N2 & Hne & nk & Enk)]].
+    - rewrite (sv_nU_par _ _ _ _ _ _ _ _ _ _ _ _ _ _ _ _ V) in Hp.
+      destruct (svw_parent p Hp) as (pn & i & Epn & _ & _ & _ & Hpn & HpU & HpL & _).
+      rewrite (DU U eq_refl), (DO p HpU HpL). pose proof (Hd n nd p En Hp). lia.
+    - rewrite (sv_nL_par _ _ _ _ _ _ _ _ _ _ _ _ _ _ _ _ V) in Hp. injection Hp as <-.
+      rewrite (DU U eq_refl), (DL Lo eq_refl). lia.
+    - destruct (svw_old c nk Hne Enk) as (nk2 & E2 & _ & _ & _ & _ & _ & _ & _ & C1 & C2 & C3 & _).
+      rewrite E in E2. injection E2 as <-. rewrite (DO c N1 N2).
+      destruct (in_dec Nat.eq_dec c chU) as [I1|I1]; [|destruct (in_dec Nat.eq_dec c chL) as [I2|I2]].
+      + destruct (C1 I1) as [Hp' Hpo]. rewrite Hp' in Hp. injection Hp as <-. rewrite (DU U eq_refl).
+        pose proof (Hd c nk n Enk Hpo). lia.
+      + destruct (C2 I2) as [Hp' Hpo]. rewrite Hp' in Hp. injection Hp as <-. rewrite (DL Lo eq_refl).
+        pose proof (Hd c nk n Enk Hpo). lia.
+      + destruct (C3 I1 I2) as [Hp' Hpo]. rewrite Hp' in Hp.
+        destruct (ni_par _ _ _ (wf_node s1 H c nk Enk) p Hp) as (pn & i & Epn & _).
+        assert (Hpn : p <> n) by congruence.
+        destruct (svw_old_fresh p (aget_Some_keys _ _ _ Epn) Hpn) as [F1 F2].
+        rewrite (DO p F1 F2). pose proof (Hd c nk p Enk Hp). lia.
+  Qed.
+
+  Theorem split_view_wf : wf s'.
+  Proof.
+    constructor.
+    - apply (sv_nd _ _ _ _ _ _ _ _ _ _ _ _ _ _ _ _ V).
+    - apply (sv_tnd _ _ _ _ _ _ _ _ _ _ _ _ _ _ _ _ V).
+    - apply svw_tn.
+    - apply svw_root.
+    - apply svw_node.
+    - apply svw_own1.
+    - apply svw_own2.
+    - apply svw_wires.
+    - apply svw_dims.
+    - apply svw_acyc.
+  Qed.
+End View.
+
+(* ==================================================================================================== *)
+(* Part 3: a successful split matches the view; theorems                                                  *)
+(* ==================================================================================================== *)
+
+
+(* ---- the four accepted configurations ------------------------------------------------------------------ *)
+Lemma sp_cases nd o i : sp_asserts o i = true -> leg_ok nd o -> leg_ok nd i ->
+  (ls_root i = true /\ ls_parent i = None /\ ls_root o = false /\ ls_parent o = None /\ parent nd = None) \/
+  (exists ip, ls_root i = false /\ ls_parent i = Some ip /\ ls_root o = false /\ ls_parent o = None /\ parent nd = Some ip) \/
+  (ls_root i = false /\ ls_parent i = None /\ ls_root o = true /\ ls_parent o = None /\ parent nd = None) \/
+  (exists op, ls_root i = false /\ ls_parent i = None /\ ls_root o = false /\ ls_parent o = Some op /\ parent nd = Some op).
+Proof.
+  unfold sp_asserts. intros Ha (O1 & O2 & _) (I1 & I2 & _).
+  destruct (ls_root i) eqn:Ri; destruct (ls_parent i) as [ip|] eqn:Pi;
+  destruct (ls_root o) eqn:Ro; destruct (ls_parent o) as [op|] eqn:Po; cbn in Ha; try discriminate;
+  try (specialize (I1 _ eq_refl)); try (specialize (O1 _ eq_refl)); try (specialize (I2 eq_refl)); try (specialize (O2 eq_refl));
+  try congruence.
+  - left. auto.
+  - right. left. exists ip. auto.
+  - right. right. left. auto.
+  - right. right. right. exists op. auto.
+Qed.
+
+(* ---- projections of the final store ---------------------------------------------------------------------- *)
+Section Final.
+  Variables (s1 : store) (n : id) (nd : node) (t : sarr) (o i : legspec) (oid iid : id)
+            (kind : nat) (m : mode) (bd : nat) (s' : store) (ol il : list nat) (on2 in2 : node) (l2 : list (id * node)).
+  Hypothesis I : split_inv s1 n nd t o i oid iid kind m bd s' ol il on2 in2 l2.
+
+  Let keep := Nat.eqb n oid || Nat.eqb n iid.
+  Let T := aset iid (sp_it s1 t il) (aset oid (sp_ot s1 t ol) (tensors s1)).
+
+  Lemma spf_nodes : nodes s' = if keep then l2 else adel n l2.
+  Proof. rewrite (si_s' _ _ _ _ _ _ _ _ _ _ _ _ _ _ _ _ _ I). cbv zeta. fold keep. destruct keep; reflexivity. Qed.
+  Lemma spf_tensors : tensors s' = if keep then T else adel n T.
+  Proof. rewrite (si_s' _ _ _ _ _ _ _ _ _ _ _ _ _ _ _ _ _ I). cbv zeta. fold keep. destruct keep; reflexivity. Qed.
+  Lemma spf_root : root s' = if ls_root i then Some iid else if ls_root o then Some oid else root s1.
+  Proof. rewrite (si_s' _ _ _ _ _ _ _ _ _ _ _ _ _ _ _ _ _ I). cbv zeta. fold keep. destruct keep; reflexivity. Qed.
+  Lemma spf_dims : dims s' = dims s1 ++ [(next_wire s1, bd)].
+  Proof. rewrite (si_s' _ _ _ _ _ _ _ _ _ _ _ _ _ _ _ _ _ I). cbv zeta. fold keep. destruct keep; reflexivity. Qed.
+  Lemma spf_next_wire : next_wire s' = S (next_wire s1).
+  Proof. rewrite (si_s' _ _ _ _ _ _ _ _ _ _ _ _ _ _ _ _ _ I). cbv zeta. fold keep. destruct keep; reflexivity. Qed.
+  Lemma spf_next_atom : next_atom s' = S (S (next_atom s1)).
+  Proof. rewrite (si_s' _ _ _ _ _ _ _ _ _ _ _ _ _ _ _ _ _ I). cbv zeta. fold keep. destruct keep; reflexivity. Qed.
+  Lemma spf_defs : defs s' = defs s1 ++ [sp_def s1 t ol il kind m].
+  Proof. rewrite (si_s' _ _ _ _ _ _ _ _ _ _ _ _ _ _ _ _ _ I). cbv zeta. fold keep. destruct keep; reflexivity. Qed.
+  Lemma spf_wdim w : wdim s' w = wdim (sp_s6 s1 t ol il oid iid kind m bd) w.
+  Proof. unfold wdim. rewrite spf_dims. reflexivity. Qed.
+
+  Lemma spf_keep_spec : keep = true <-> n = oid \/ n = iid.
+  Proof. unfold keep. rewrite orb_true_iff, !Nat.eqb_eq. reflexivity. Qed.
+
+  (* tensors *)
+  Hypothesis Htnd : NoDup (akeys (tensors s1)).
+
+  Lemma spf_T_nd : NoDup (akeys T).
+  Proof. unfold T. apply NoDup_akeys_aset. apply NoDup_akeys_aset. exact Htnd. Qed.
+
+  Lemma spf_tensors_nd : NoDup (akeys (tensors s')).
+  Proof. rewrite spf_tensors. destruct keep; [apply spf_T_nd|apply NoDup_akeys_adel; apply spf_T_nd]. Qed.
+
+  Lemma spf_tensors_aget k : aget k (tensors s') =
+    if Nat.eqb k iid then Some (sp_it s1 t il) else if Nat.eqb k oid then Some (sp_ot s1 t ol)
+    else if Nat.eqb k n then None else aget k (tensors s1).
+  Proof.
+    rewrite spf_tensors. assert (HT : aget k T = if Nat.eqb k iid then Some (sp_it s1 t il) else if Nat.eqb k oid then Some (sp_ot s1 t ol) else aget k (tensors s1)).
+    { unfold T. rewrite !aget_aset. reflexivity. }
+    destruct keep eqn:Ek.
+    - rewrite HT. apply spf_keep_spec in Ek.
+      destruct (Nat.eqb_spec k iid); [reflexivity|]. destruct (Nat.eqb_spec k oid); [reflexivity|].
+      destruct (Nat.eqb_spec k n); [|reflexivity]. subst k. destruct Ek; congruence.
+    - assert (Hn : n <> oid /\ n <> iid).
+      { unfold keep in Ek. apply orb_false_iff in Ek. destruct Ek as [E1 E2]. apply Nat.eqb_neq in E1, E2. auto. }
+      destruct Hn as [N1 N2]. rewrite (aget_adel _ _ _ spf_T_nd). rewrite HT.
+      destruct (Nat.eqb_spec k n) as [->|Hne].
+      + destruct (Nat.eqb_spec n iid); [contradiction|]. destruct (Nat.eqb_spec n oid); [contradiction|]. reflexivity.
+      + reflexivity.
+  Qed.
+
+  (* nodes *)
+  Hypothesis Hnnd : NoDup (akeys (nodes s1)).
+  Let l0 := aset iid in2 (aset oid on2 (nodes s1)).
+
+  Lemma spf_l0_nd : NoDup (akeys l0).
+  Proof. unfold l0. apply NoDup_akeys_aset. apply NoDup_akeys_aset. exact Hnnd. Qed.
+
+  Lemma spf_l0_aget k : aget k l0 = if Nat.eqb k iid then Some in2 else if Nat.eqb k oid then Some on2 else aget k (nodes s1).
+  Proof. unfold l0. rewrite !aget_aset. reflexivity. Qed.
+
+  Lemma spf_nodes_aget k : aget k (nodes s') = if keep then aget k l2 else if Nat.eqb k n then None else aget k l2.
+  Proof.
+    rewrite spf_nodes. destruct keep; [reflexivity|].
+    destruct (si_l2 _ _ _ _ _ _ _ _ _ _ _ _ _ _ _ _ _ I) as (l1 & E1 & E2).
+    assert (Hnd2 : NoDup (akeys l2)).
+    { (* the renaming keeps the key lists *)
+      assert (K : forall new old ns l l', replace_in_some_neighbours l new old ns = Some l' -> akeys l' = akeys l).
+      { intros new old ns. induction ns as [|x ns IH]; intros l l' Hr.
+        - cbn in Hr. injection Hr as <-. reflexivity.
+        - rewrite sp_risn_fold in Hr. cbn [fold_left] in Hr. unfold sp_risn_step at 2 in Hr.
+          destruct (aget x l) as [xn|] eqn:Ex; [|rewrite sp_risn_none in Hr; discriminate].
+          destruct (replace_neighbour xn old new) as [xn'|]; [|rewrite sp_risn_none in Hr; discriminate].
+          rewrite <- sp_risn_fold in Hr. rewrite (IH _ _ Hr). eapply akeys_aset_mem; eauto. }
+      rewrite (K _ _ _ _ _ E2), (K _ _ _ _ _ E1). apply spf_l0_nd. }
+    apply aget_adel. exact Hnd2.
+  Qed.
+End Final.
+
+(* ---- from a successful split to the view ------------------------------------------------------------------ *)
+Lemma sp_In_nbrs sp k : In k (find_all_neighbour_ids sp) <-> ls_parent sp = Some k \/ In k (ls_children sp).
+Proof.
+  unfold find_all_neighbour_ids. rewrite in_app_iff. destruct (ls_parent sp) as [p|]; cbn; split.
+  - intros [[->|[]]|Hc]; auto.
+  - intros [[= ->]|Hc]; auto.
+  - intros [[]|Hc]; auto.
+  - intros [[=]|Hc]; auto.
+Qed.
+
+Lemma sp_perm_swap01 L : 2 <= L -> Permutation (1 :: 0 :: seq 2 (L - 2)) (seq 0 L).
+Proof. destruct L as [|[|L]]; [lia|lia|]. intros _. cbn. rewrite Nat.sub_0_r. apply perm_swap. Qed.
+Lemma sp_perm_last M : Permutation (M :: seq 0 M) (seq 0 (S M)).
+Proof. rewrite sp_seq_snoc. apply Permutation_cons_append. Qed.
+Lemma sp_perm_0_last M : 1 <= M -> Permutation (0 :: M :: seq 1 (M - 1)) (seq 0 (S M)).
+Proof.
+  intros HM. cbn [seq]. apply perm_skip. replace M with (S (M - 1)) at 3 by lia. rewrite sp_seq_snoc.
+  replace (1 + (M - 1)) with M by lia. apply Permutation_cons_append.
+Qed.
+Lemma sp_firstn_1 (W : list wire) : 1 <= length W -> firstn 1 W = [nth 0 W 0].
+Proof. destruct W; cbn; [lia|reflexivity]. Qed.
+
+Section Connect.
+  Variables (s1 : store) (n : id) (nd : node) (t : sarr) (o i : legspec) (oid iid : id)
+            (kind : nat) (m : mode) (bd : nat) (s' : store) (ol il : list nat) (on2 in2 : node) (l2 : list (id * node))
+            (cO cI : list nat).
+  Hypothesis H : wf s1.
+  Hypothesis En : aget n (nodes s1) = Some nd.
+  Hypothesis Et : aget n (tensors s1) = Some t.
+  Hypothesis Hid : perm nd = seq 0 (length (axes t)).
+  Hypothesis LO : leg_ok nd o.
+  Hypothesis LI : leg_ok nd i.
+  Hypothesis Hids : ids_ok s1 n oid iid.
+  Hypothesis I : split_inv s1 n nd t o i oid iid kind m bd s' ol il on2 in2 l2.
+  Hypothesis EcO : map (neighbour_index nd) (ls_children o) = map Some cO.
+  Hypothesis EcI : map (neighbour_index nd) (ls_children i) = map Some cI.
+  Hypothesis Eol : ol = sp_pl o ++ cO ++ ls_open o.
+  Hypothesis Eil : il = sp_pl i ++ cI ++ ls_open i.
+
+  Let W := axes t.
+  Let b := next_wire s1.
+  Let Hperm := si_perm _ _ _ _ _ _ _ _ _ _ _ _ _ _ _ _ _ I.
+  Let Hne := si_ids _ _ _ _ _ _ _ _ _ _ _ _ _ _ _ _ _ I.
+
+  Lemma spc_leg_lt x : In x (ol ++ il) -> x < length W.
+  Proof. intros Hx. apply (Permutation_in _ Hperm) in Hx. apply in_seq in Hx. fold W in Hx. lia. Qed.
+
+  Lemma spc_legs_NoDup : NoDup (ol ++ il).
+  Proof. apply (Permutation_NoDup (Permutation_sym Hperm)). apply seq_NoDup. Qed.
+
+  Lemma spc_cc_NoDup : NoDup (cO ++ cI).
+  Proof.
+    pose proof spc_legs_NoDup as Hnd. rewrite Eol, Eil in Hnd.
+    apply NoDup_app_iff in Hnd. destruct Hnd as (N1 & N2 & N3).
+    apply sp_NoDup_app_r in N1. apply sp_NoDup_app_l in N1.
+    apply sp_NoDup_app_r in N2. apply sp_NoDup_app_l in N2.
+    apply NoDup_app_iff. repeat split; auto. intros x Hx Hy. apply (N3 x).
+    - apply in_or_app. right. apply in_or_app. left. exact Hx.
+    - apply in_or_app. right. apply in_or_app. left. exact Hy.
+  Qed.
+
+  Lemma spc_ch_NoDup : NoDup (ls_children o ++ ls_children i).
+  Proof.
+    apply (NoDup_map_inv (neighbour_index nd)). rewrite map_app, EcO, EcI, <- map_app.
+    apply sp_NoDup_map_Some. apply spc_cc_NoDup.
+  Qed.
+
+  Lemma spc_child c : In c (children nd) ->
+    exists cn, aget c (nodes s1) = Some cn /\ parent cn = Some n /\ c <> n /\ c <> oid /\ c <> iid /\ parent nd <> Some c.
+  Proof.
+    intros Hc. destruct (ni_ch _ _ _ (wf_node s1 H n nd En) c Hc) as (cn & Ec & Epc).
+    assert (Hcn : c <> n). { intros ->. apply (wf_not_self_parent s1 n cn H Ec Epc). }
+    pose proof (aget_Some_keys _ _ _ Ec) as Hk. destruct Hids as [[->|F1] [->|F2]];
+    exists cn; repeat split; auto; try (intros ->; contradiction); eapply wf_parent_not_child; eauto.
+  Qed.
+
+  Lemma spc_parent p : parent nd = Some p ->
+    exists pn, aget p (nodes s1) = Some pn /\ parent pn <> Some n /\ In n (children pn) /\ p <> n /\ p <> oid /\ p <> iid /\ ~ In p (children nd).
+  Proof.
+    intros Hp. destruct (ni_par _ _ _ (wf_node s1 H n nd En) p Hp) as (pn & j & Epn & Hin & _).
+    assert (Hpn : p <> n). { intros ->. apply (wf_not_self_parent s1 n nd H En Hp). }
+    assert (Hnc : ~ In p (children nd)).
+    { intros Hc. destruct (spc_child p Hc) as (_ & _ & _ & _ & _ & _ & Hx). contradiction. }
+    pose proof (aget_Some_keys _ _ _ Epn) as Hk. destruct Hids as [[->|F1] [->|F2]];
+    exists pn; repeat split; auto; try (intros ->; contradiction); eapply wf_parent_not_child; eauto.
+  Qed.
+
+  Lemma spc_old_fresh k nk : k <> n -> aget k (nodes s1) = Some nk -> k <> oid /\ k <> iid.
+  Proof.
+    intros Hk E. pose proof (aget_Some_keys _ _ _ E) as Hin.
+    destruct Hids as [[->|F1] [->|F2]]; split; auto; intros ->; contradiction.
+  Qed.
+
+  (* facts about the neighbours named in a specification *)
+  Lemma spc_nbr sp k : leg_ok nd sp -> In k (find_all_neighbour_ids sp) ->
+    k <> n /\ k <> oid /\ k <> iid /\ exists nk, aget k (nodes s1) = Some nk.
+  Proof.
+    intros (L1 & _ & L3 & _) Hk. apply sp_In_nbrs in Hk. destruct Hk as [Hp|Hc].
+    - destruct (spc_parent k (L1 k Hp)) as (pn & Epn & _ & _ & A & B & C & _). eauto 10.
+    - destruct (spc_child k (L3 k Hc)) as (cn & Ec & _ & A & B & C & _). eauto 10.
+  Qed.
+
+  Hypothesis Hpar1 : ls_parent o = None \/ ls_parent i = None.
+
+  Lemma spc_nbrs_NoDup : NoDup (find_all_neighbour_ids o ++ find_all_neighbour_ids i).
+  Proof.
+    pose proof spc_ch_NoDup as Hnd. destruct LO as (O1 & _ & O3 & _). destruct LI as (I1 & _ & I3 & _).
+    unfold find_all_neighbour_ids.
+    destruct (ls_parent o) as [op|] eqn:Po; destruct (ls_parent i) as [ip|] eqn:Pi; cbn [app].
+    - destruct Hpar1; discriminate.
+    - constructor; [|exact Hnd]. destruct (spc_parent op (O1 op eq_refl)) as (_ & _ & _ & _ & _ & _ & _ & Hx).
+      intros Hin. apply in_app_or in Hin. destruct Hin as [Hin|Hin]; [apply Hx, O3, Hin|apply Hx, I3, Hin].
+    - apply NoDup_app_iff in Hnd. destruct Hnd as (N1 & N2 & N3).
+      destruct (spc_parent ip (I1 ip eq_refl)) as (_ & _ & _ & _ & _ & _ & _ & Hx).
+      apply NoDup_app_iff. split; [exact N1|]. split.
+      + constructor; [|exact N2]. intros Hin. apply Hx, I3, Hin.
+      + intros x Hx1 [<-|Hx2]; [apply Hx, O3, Hx1|apply (N3 x Hx1 Hx2)].
+    - exact Hnd.
+  Qed.
+
+  Lemma spc_l2 :
+    (forall k, In k (find_all_neighbour_ids o) ->
+       exists nk nk', aget k (nodes s1) = Some nk /\ replace_neighbour nk n oid = Some nk' /\ aget k l2 = Some nk') /\
+    (forall k, In k (find_all_neighbour_ids i) ->
+       exists nk nk', aget k (nodes s1) = Some nk /\ replace_neighbour nk n iid = Some nk' /\ aget k l2 = Some nk') /\
+    (forall k, ~ In k (find_all_neighbour_ids o) -> ~ In k (find_all_neighbour_ids i) ->
+       aget k l2 = if Nat.eqb k iid then Some in2 else if Nat.eqb k oid then Some on2 else aget k (nodes s1)).
+  Proof.
+    destruct (si_l2 _ _ _ _ _ _ _ _ _ _ _ _ _ _ _ _ _ I) as (l1 & E1 & E2).
+    pose proof spc_nbrs_NoDup as Hnd. apply NoDup_app_iff in Hnd. destruct Hnd as (N1 & N2 & N3).
+    destruct (sp_risn_spec _ _ _ _ _ E1 N1) as (_ & A2 & A3).
+    destruct (sp_risn_spec _ _ _ _ _ E2 N2) as (_ & B2 & B3).
+    assert (L0 : forall k, aget k (aset iid in2 (aset oid on2 (nodes s1)))
+                 = if Nat.eqb k iid then Some in2 else if Nat.eqb k oid then Some on2 else aget k (nodes s1)).
+    { intros k. rewrite !aget_aset. reflexivity. }
+    split; [|split].
+    - intros k Hk. destruct (spc_nbr o k LO Hk) as (K1 & K2 & K3 & _).
+      destruct (A3 k Hk) as (xn & xn' & X1 & X2 & X3). rewrite L0 in X1.
+      destruct (Nat.eqb_spec k iid); [contradiction|]. destruct (Nat.eqb_spec k oid); [contradiction|].
+      exists xn, xn'. repeat split; auto. rewrite (B2 k (N3 k Hk)). exact X3.
+    - intros k Hk. destruct (spc_nbr i k LI Hk) as (K1 & K2 & K3 & _).
+      assert (Hno : ~ In k (find_all_neighbour_ids o)) by (intros Hx; apply (N3 k Hx Hk)).
+      destruct (B3 k Hk) as (xn & xn' & X1 & X2 & X3). rewrite (A2 k Hno), L0 in X1.
+      destruct (Nat.eqb_spec k iid); [contradiction|]. destruct (Nat.eqb_spec k oid); [contradiction|].
+      exists xn, xn'. repeat split; auto.
+    - intros k K1 K2. rewrite (B2 k K2), (A2 k K1). apply L0.
+  Qed.
+
+  Lemma spc_l2_oid : aget oid l2 = Some on2.
+  Proof.
+    destruct spc_l2 as (_ & _ & C). rewrite C.
+    - destruct (Nat.eqb_spec oid iid); [contradiction|]. rewrite Nat.eqb_refl. reflexivity.
+    - intros Hk. destruct (spc_nbr o oid LO Hk) as (_ & K & _). congruence.
+    - intros Hk. destruct (spc_nbr i oid LI Hk) as (_ & K & _). congruence.
+  Qed.
+
+  Lemma spc_l2_iid : aget iid l2 = Some in2.
+  Proof.
+    destruct spc_l2 as (_ & _ & C). rewrite C.
+    - rewrite Nat.eqb_refl. reflexivity.
+    - intros Hk. destruct (spc_nbr o iid LO Hk) as (_ & _ & K & _). congruence.
+    - intros Hk. destruct (spc_nbr i iid LI Hk) as (_ & _ & K & _). congruence.
+  Qed.
+
+  Lemma spc_old_generic su sl U Lo :
+    leg_ok nd su -> leg_ok nd sl ->
+    (forall k, In k (find_all_neighbour_ids su) ->
+       exists nk nk', aget k (nodes s1) = Some nk /\ replace_neighbour nk n U = Some nk' /\ aget k l2 = Some nk') ->
+    (forall k, In k (find_all_neighbour_ids sl) ->
+       exists nk nk', aget k (nodes s1) = Some nk /\ replace_neighbour nk n Lo = Some nk' /\ aget k l2 = Some nk') ->
+    (forall k nk, k <> n -> aget k (nodes s1) = Some nk -> ~ In k (find_all_neighbour_ids su) -> ~ In k (find_all_neighbour_ids sl) ->
+       aget k l2 = Some nk) ->
+    (forall k, In k (ls_children su) -> In k (ls_children sl) -> False) ->
+    ls_parent sl = None -> (forall q, parent nd = Some q -> ls_parent su = Some q) ->
+    forall k nk, k <> n -> aget k (nodes s1) = Some nk ->
+      exists nk', aget k l2 = Some nk' /\ perm nk' = perm nk /\ shape nk' = shape nk /\
+        (In k (ls_children su) -> parent nk' = Some U) /\
+        (In k (ls_children sl) -> parent nk' = Some Lo) /\
+        (~ In k (ls_children su) -> ~ In k (ls_children sl) -> parent nk' = parent nk) /\
+        (parent nd = Some k -> children nk' = replace_first n U (children nk)) /\
+        (parent nd <> Some k -> children nk' = children nk).
+  Proof.
+    intros (U1 & _ & U3 & _) (L1 & _ & L3 & _) HU HL Hoth Hdisj HpL HpU k nk Hkn E.
+    destruct (in_dec Nat.eq_dec k (ls_children su)) as [I1|I1]; [|destruct (in_dec Nat.eq_dec k (ls_children sl)) as [I2|I2]].
+    - (* a child listed in su *)
+      destruct (HU k (proj2 (sp_In_nbrs su k) (or_intror I1))) as (xn & xn' & X1 & X2 & X3).
+      rewrite E in X1. injection X1 as <-.
+      destruct (spc_child k (U3 k I1)) as (cn & Ec & Epc & _ & _ & _ & Hpk). rewrite E in Ec. injection Ec as <-.
+      destruct (sp_replace_neighbour_child _ _ _ _ Epc X2) as (R1 & R2 & R3 & R4).
+      exists xn'. repeat split; auto.
+      + intros Hx. exfalso. apply (Hdisj k I1 Hx).
+      + intros Hx. contradiction.
+      + intros Hx. contradiction.
+    - (* a child listed in sl *)
+      destruct (HL k (proj2 (sp_In_nbrs sl k) (or_intror I2))) as (xn & xn' & X1 & X2 & X3).
+      rewrite E in X1. injection X1 as <-.
+      destruct (spc_child k (L3 k I2)) as (cn & Ec & Epc & _ & _ & _ & Hpk). rewrite E in Ec. injection Ec as <-.
+      destruct (sp_replace_neighbour_child _ _ _ _ Epc X2) as (R1 & R2 & R3 & R4).
+      exists xn'. repeat split; auto.
+      + intros Hx. contradiction.
+      + intros Hx. contradiction.
+      + intros Hx. contradiction.
+    - destruct (option_eq_dec_id (parent nd) (Some k)) as [Ep|Ep].
+      + (* the parent of n *)
+        destruct (HU k (proj2 (sp_In_nbrs su k) (or_introl (HpU k Ep)))) as (xn & xn' & X1 & X2 & X3).
+        rewrite E in X1. injection X1 as <-.
+        destruct (spc_parent k Ep) as (pn & Epn & Hpp & _). rewrite E in Epn. injection Epn as <-.
+        destruct (sp_replace_neighbour_parent _ _ _ _ Hpp X2) as (R1 & R2 & R3 & R4).
+        exists xn'. repeat split; auto; intros; contradiction.
+      + (* untouched *)
+        exists nk. split.
+        * apply (Hoth k nk Hkn E).
+          -- intros Hx. apply sp_In_nbrs in Hx. destruct Hx as [Hx|Hx]; [apply Ep, U1, Hx|contradiction].
+          -- intros Hx. apply sp_In_nbrs in Hx. destruct Hx as [Hx|Hx]; [congruence|contradiction].
+        * repeat split; auto; intros; contradiction.
+  Qed.
+
+  (* keys and lookups of the final node dictionary *)
+  Let keep := Nat.eqb n oid || Nat.eqb n iid.
+
+  Lemma spc_nodes_old k : k <> n -> aget k (nodes s') = aget k l2.
+  Proof.
+    intros Hk. rewrite (spf_nodes_aget _ _ _ _ _ _ _ _ _ _ _ _ _ _ _ _ _ I (wf_nd s1 H)).
+    destruct (Nat.eqb n oid || Nat.eqb n iid); [reflexivity|]. destruct (Nat.eqb_spec k n); [contradiction|reflexivity].
+  Qed.
+
+  Lemma spc_nodes_oid : aget oid (nodes s') = Some on2.
+  Proof.
+    rewrite (spf_nodes_aget _ _ _ _ _ _ _ _ _ _ _ _ _ _ _ _ _ I (wf_nd s1 H)). rewrite spc_l2_oid.
+    destruct (Nat.eqb_spec n oid) as [|N1]; [reflexivity|]. cbn [orb].
+    destruct (Nat.eqb n iid); [reflexivity|]. destruct (Nat.eqb_spec oid n); [congruence|reflexivity].
+  Qed.
+
+  Lemma spc_nodes_iid : aget iid (nodes s') = Some in2.
+  Proof.
+    rewrite (spf_nodes_aget _ _ _ _ _ _ _ _ _ _ _ _ _ _ _ _ _ I (wf_nd s1 H)). rewrite spc_l2_iid.
+    destruct (Nat.eqb_spec n iid) as [|N1]; [rewrite orb_true_r; reflexivity|]. rewrite orb_false_r.
+    destruct (Nat.eqb n oid); [reflexivity|]. destruct (Nat.eqb_spec iid n); [congruence|reflexivity].
+  Qed.
+
+  Lemma spc_nodes_nd : NoDup (akeys (nodes s')).
+  Proof.
+    assert (Hnd2 : NoDup (akeys l2)).
+    { destruct (si_l2 _ _ _ _ _ _ _ _ _ _ _ _ _ _ _ _ _ I) as (l1 & E1 & E2).
+      pose proof spc_nbrs_NoDup as Hnd. apply NoDup_app_iff in Hnd. destruct Hnd as (N1 & N2 & _).
+      destruct (sp_risn_spec _ _ _ _ _ E1 N1) as (K1 & _). destruct (sp_risn_spec _ _ _ _ _ E2 N2) as (K2 & _).
+      rewrite K2, K1. apply NoDup_akeys_aset. apply NoDup_akeys_aset. apply (wf_nd s1 H). }
+    rewrite (spf_nodes _ _ _ _ _ _ _ _ _ _ _ _ _ _ _ _ _ I).
+    destruct (Nat.eqb n oid || Nat.eqb n iid); [exact Hnd2|apply NoDup_akeys_adel; exact Hnd2].
+  Qed.
+
+  Lemma spc_keys k : In k (akeys (nodes s')) -> k = iid \/ k = oid \/ (k <> n /\ In k (akeys (nodes s1))).
+  Proof.
+    intros Hk. destruct (Nat.eq_dec k iid) as [|N1]; [auto|]. destruct (Nat.eq_dec k oid) as [|N2]; [auto|]. right. right.
+    apply keys_aget in Hk. destruct Hk as [nk' E].
+    rewrite (spf_nodes_aget _ _ _ _ _ _ _ _ _ _ _ _ _ _ _ _ _ I (wf_nd s1 H)) in E.
+    assert (Hkn : k <> n).
+    { intros ->. destruct (Nat.eqb_spec n oid); [congruence|]. destruct (Nat.eqb_spec n iid); [congruence|].
+      cbn in E. rewrite Nat.eqb_refl in E. discriminate. }
+    split; [exact Hkn|].
+    assert (E2 : aget k l2 = Some nk').
+    { destruct (Nat.eqb n oid || Nat.eqb n iid); [exact E|]. destruct (Nat.eqb_spec k n); [contradiction|exact E]. }
+    (* the key list of l2 is that of l0 *)
+    destruct (si_l2 _ _ _ _ _ _ _ _ _ _ _ _ _ _ _ _ _ I) as (l1 & E1 & E2').
+    pose proof spc_nbrs_NoDup as Hnd. apply NoDup_app_iff in Hnd. destruct Hnd as (M1 & M2 & _).
+    destruct (sp_risn_spec _ _ _ _ _ E1 M1) as (K1 & _). destruct (sp_risn_spec _ _ _ _ _ E2' M2) as (K2 & _).
+    apply aget_Some_keys in E2. rewrite K2, K1 in E2.
+    apply keys_aget in E2. destruct E2 as [x Ex]. rewrite !aget_aset in Ex.
+    destruct (Nat.eqb_spec k iid); [contradiction|]. destruct (Nat.eqb_spec k oid); [contradiction|].
+    eapply aget_Some_keys; eauto.
+  Qed.
+
+  (* shapes of the new nodes *)
+  Lemma spc_wdim_map l : map (wdim (sp_s6 s1 t ol il oid iid kind m bd)) l = map (wdim s') l.
+  Proof. apply map_ext. intros w. symmetry. apply (spf_wdim _ _ _ _ _ _ _ _ _ _ _ _ _ _ _ _ _ I). Qed.
+
+  Lemma spc_len_shp_i : length (map (wdim (sp_s6 s1 t ol il oid iid kind m bd)) (axes (sp_it s1 t il))) = S (length il).
+  Proof. rewrite map_length. cbn. rewrite permute_length. reflexivity. Qed.
+  Lemma spc_len_shp_o : length (map (wdim (sp_s6 s1 t ol il oid iid kind m bd)) (axes (sp_ot s1 t ol))) = S (length ol).
+  Proof. rewrite map_length. cbn. rewrite app_length, permute_length. cbn. lia. Qed.
+
+  Lemma spc_it_incl : incl (axes (sp_it s1 t il)) (next_wire s1 :: axes t).
+  Proof.
+    cbn. intros w [<-|Hw]; [left; reflexivity|right]. apply (permute_incl 0 il (axes t)); [|exact Hw].
+    intros x Hx. apply spc_leg_lt. apply in_or_app. right. exact Hx.
+  Qed.
+  Lemma spc_ot_incl : incl (axes (sp_ot s1 t ol)) (next_wire s1 :: axes t).
+  Proof.
+    cbn. intros w Hw. apply in_app_or in Hw. destruct Hw as [Hw|[<-|[]]]; [right|left; reflexivity].
+    apply (permute_incl 0 ol (axes t)); [|exact Hw]. intros x Hx. apply spc_leg_lt. apply in_or_app. left. exact Hx.
+  Qed.
+
+  Lemma spc_len_cO : length cO = length (ls_children o).
+  Proof. pose proof (f_equal (@length _) EcO) as E. rewrite !map_length in E. symmetry. exact E. Qed.
+  Lemma spc_len_cI : length cI = length (ls_children i).
+  Proof. pose proof (f_equal (@length _) EcI) as E. rewrite !map_length in E. symmetry. exact E. Qed.
+
+  (* --- the four final node records -------------------------------------------------------------------------- *)
+  Lemma spc_in_upper :
+    (ls_root i = true /\ ls_parent i = None /\ parent nd = None) \/
+    (exists ip, ls_root i = false /\ ls_parent i = Some ip /\ parent nd = Some ip) ->
+    parent in2 = parent nd /\ children in2 = oid :: ls_children i /\
+    laxes in2 (sp_it s1 t il) = firstn (nparents nd) W ++ b :: permute 0 (cI ++ ls_open i) W /\
+    Permutation (perm in2) (seq 0 (length (shape in2))) /\ shape in2 = map (wdim s') (axes (sp_it s1 t il)).
+  Proof.
+    intros Hc. destruct (si_in _ _ _ _ _ _ _ _ _ _ _ _ _ _ _ _ _ I) as (in1 & E1 & E2).
+    destruct Hc as [(Hr & Hp & Hnd)|(ip & Hr & Hp & Hnd)].
+    - destruct (sp_in_node_root _ _ _ _ _ Hr Hp E1 E2) as (P1 & P2 & P3 & P4 & P5).
+      rewrite spc_len_shp_i in P3. split; [congruence|]. split; [exact P2|]. split; [|split].
+      + unfold laxes. rewrite P3. unfold nparents. rewrite Hnd. cbn [firstn app].
+        assert (Eil' : il = cI ++ ls_open i) by (rewrite Eil; unfold sp_pl; rewrite Hp; reflexivity).
+        rewrite <- Eil'. apply sp_permute_seq_all. cbn. rewrite permute_length. reflexivity.
+      + rewrite P3, P4, spc_len_shp_i. reflexivity.
+      + rewrite P4. apply spc_wdim_map.
+    - destruct (sp_in_node_parent _ _ _ _ _ _ Hr Hp E1 E2) as (P1 & P2 & P3 & P4 & P5).
+      rewrite spc_len_shp_i in P3, P5.
+      assert (Eil' : il = 0 :: cI ++ ls_open i) by (rewrite Eil; unfold sp_pl; rewrite Hp; reflexivity).
+      assert (HW : 1 <= length W).
+      { assert (0 < length W); [|lia]. apply spc_leg_lt. apply in_or_app. right. rewrite Eil'. left. reflexivity. }
+      split; [congruence|]. split; [exact P2|]. split; [|split].
+      + unfold laxes. rewrite P3. unfold nparents. rewrite Hnd. rewrite (sp_firstn_1 W HW). cbn [app].
+        cbn [sp_it axes]. rewrite Eil'. rewrite sp_permute_cons. fold W.
+        replace (S (length (0 :: cI ++ ls_open i)) - 2) with (length (permute 0 (cI ++ ls_open i) W))
+          by (rewrite permute_length; cbn [length]; lia).
+        apply sp_permute_swap01.
+      + rewrite P3, P4, spc_len_shp_i. apply sp_perm_swap01. lia.
+      + rewrite P4. apply spc_wdim_map.
+  Qed.
+
+  Lemma spc_in_lower : ls_root i = false -> ls_parent i = None ->
+    parent in2 = Some oid /\ children in2 = ls_children i /\
+    laxes in2 (sp_it s1 t il) = b :: permute 0 (cI ++ ls_open i) W /\
+    Permutation (perm in2) (seq 0 (length (shape in2))) /\ shape in2 = map (wdim s') (axes (sp_it s1 t il)).
+  Proof.
+    intros Hr Hp. destruct (si_in _ _ _ _ _ _ _ _ _ _ _ _ _ _ _ _ _ I) as (in1 & E1 & E2).
+    destruct (sp_in_node_below _ _ _ _ _ Hr Hp E1 E2) as (P1 & P2 & P3 & P4 & P5).
+    rewrite spc_len_shp_i in P3. split; [exact P1|]. split; [exact P2|]. split; [|split].
+    - unfold laxes. rewrite P3.
+      assert (Eil' : il = cI ++ ls_open i) by (rewrite Eil; unfold sp_pl; rewrite Hp; reflexivity).
+      rewrite <- Eil'. apply sp_permute_seq_all. cbn. rewrite permute_length. reflexivity.
+    - rewrite P3, P4, spc_len_shp_i. reflexivity.
+    - rewrite P4. apply spc_wdim_map.
+  Qed.
+
+  Lemma spc_out_lower : sp_in_above i = true -> ls_root o = false -> ls_parent o = None ->
+    parent on2 = Some iid /\ children on2 = ls_children o /\
+    laxes on2 (sp_ot s1 t ol) = b :: permute 0 (cO ++ ls_open o) W /\
+    Permutation (perm on2) (seq 0 (length (shape on2))) /\ shape on2 = map (wdim s') (axes (sp_ot s1 t ol)).
+  Proof.
+    intros Ha Hr Hp. destruct (si_out _ _ _ _ _ _ _ _ _ _ _ _ _ _ _ _ _ I) as (on1 & E1 & E2).
+    destruct (sp_out_node_below _ _ _ _ _ _ (length ol) spc_len_shp_o Ha Hr Hp E1 E2) as (P1 & P2 & P3 & P4 & P5).
+    split; [exact P1|]. split; [exact P2|]. split; [|split].
+    - unfold laxes. rewrite P3.
+      assert (Eol' : ol = cO ++ ls_open o) by (rewrite Eol; unfold sp_pl; rewrite Hp; reflexivity).
+      rewrite <- Eol'. cbn [sp_ot axes]. fold W b.
+      replace (length ol) with (length (permute 0 ol W)) by apply permute_length. apply sp_permute_last_first.
+    - rewrite P3, P4, spc_len_shp_o. apply sp_perm_last.
+    - rewrite P4. apply spc_wdim_map.
+  Qed.
+
+  Lemma spc_out_upper : sp_in_above i = false ->
+    (ls_root o = true /\ ls_parent o = None /\ parent nd = None) \/
+    (exists op, ls_root o = false /\ ls_parent o = Some op /\ parent nd = Some op) ->
+    parent on2 = parent nd /\ children on2 = iid :: ls_children o /\
+    laxes on2 (sp_ot s1 t ol) = firstn (nparents nd) W ++ b :: permute 0 (cO ++ ls_open o) W /\
+    Permutation (perm on2) (seq 0 (length (shape on2))) /\ shape on2 = map (wdim s') (axes (sp_ot s1 t ol)).
+  Proof.
+    intros Ha Hc. destruct (si_out _ _ _ _ _ _ _ _ _ _ _ _ _ _ _ _ _ I) as (on1 & E1 & E2).
+    destruct Hc as [(Hr & Hp & Hnd)|(op & Hr & Hp & Hnd)].
+    - assert (Eol' : ol = cO ++ ls_open o) by (rewrite Eol; unfold sp_pl; rewrite Hp; reflexivity).
+      assert (Hk : length (ls_children o) <= length ol) by (rewrite Eol', app_length, spc_len_cO; lia).
+      destruct (sp_out_node_root _ _ _ _ _ _ (length ol) spc_len_shp_o Ha Hr Hp Hk E1 E2) as (P1 & P2 & P3 & P4).
+      split; [congruence|]. split; [exact P2|]. split; [|split].
+      + unfold laxes. rewrite P3. unfold nparents. rewrite Hnd. cbn [firstn app].
+        rewrite <- Eol'. cbn [sp_ot axes]. fold W b.
+        replace (length ol) with (length (permute 0 ol W)) by apply permute_length. apply sp_permute_last_first.
+      + rewrite P3, P4, spc_len_shp_o. apply sp_perm_last.
+      + rewrite P4. apply spc_wdim_map.
+    - assert (Eol' : ol = 0 :: cO ++ ls_open o) by (rewrite Eol; unfold sp_pl; rewrite Hp; reflexivity).
+      assert (Hk : 1 + length (ls_children o) <= length ol) by (rewrite Eol'; cbn [length]; rewrite app_length, spc_len_cO; lia).
+      destruct (sp_out_node_parent _ _ _ _ _ _ _ (length ol) spc_len_shp_o Ha Hr Hp Hk E1 E2) as (P1 & P2 & P3 & P4).
+      assert (HW : 1 <= length W).
+      { assert (0 < length W); [|lia]. apply spc_leg_lt. apply in_or_app. left. rewrite Eol'. left. reflexivity. }
+      split; [congruence|]. split; [exact P2|]. split; [|split].
+      + unfold laxes. rewrite P3. unfold nparents. rewrite Hnd. rewrite (sp_firstn_1 W HW). cbn [app].
+        cbn [sp_ot axes]. rewrite Eol'. rewrite sp_permute_cons. fold W b. cbn [length].
+        replace (S (length (cO ++ ls_open o)) - 1) with (length (cO ++ ls_open o)) by lia.
+        replace (length (cO ++ ls_open o)) with (length (permute 0 (cO ++ ls_open o) W)) by apply permute_length.
+        apply sp_permute_0_last.
+      + rewrite P3, P4, spc_len_shp_o. apply sp_perm_0_last. lia.
+      + rewrite P4. apply spc_wdim_map.
+  Qed.
+
+  Lemma spc_old_view su sl U Lo :
+    leg_ok nd su -> leg_ok nd sl ->
+    (forall k, In k (find_all_neighbour_ids su) ->
+       exists nk nk', aget k (nodes s1) = Some nk /\ replace_neighbour nk n U = Some nk' /\ aget k l2 = Some nk') ->
+    (forall k, In k (find_all_neighbour_ids sl) ->
+       exists nk nk', aget k (nodes s1) = Some nk /\ replace_neighbour nk n Lo = Some nk' /\ aget k l2 = Some nk') ->
+    (forall k, In k (ls_children su) -> In k (ls_children sl) -> False) ->
+    ls_parent sl = None -> (forall q, parent nd = Some q -> ls_parent su = Some q) ->
+    (find_all_neighbour_ids su = find_all_neighbour_ids o /\ find_all_neighbour_ids sl = find_all_neighbour_ids i \/
+     find_all_neighbour_ids su = find_all_neighbour_ids i /\ find_all_neighbour_ids sl = find_all_neighbour_ids o) ->
+    forall k nk, k <> n -> aget k (nodes s1) = Some nk ->
+      exists nk', aget k (nodes s') = Some nk' /\ perm nk' = perm nk /\ shape nk' = shape nk /\
+        (In k (ls_children su) -> parent nk' = Some U) /\
+        (In k (ls_children sl) -> parent nk' = Some Lo) /\
+        (~ In k (ls_children su) -> ~ In k (ls_children sl) -> parent nk' = parent nk) /\
+        (parent nd = Some k -> children nk' = replace_first n U (children nk)) /\
+        (parent nd <> Some k -> children nk' = children nk).
+  Proof.
+    intros LU LL HU HL Hdisj HpL HpU Hnb k nk Hkn E. rewrite (spc_nodes_old k Hkn).
+    apply (spc_old_generic su sl U Lo LU LL HU HL); auto.
+    intros k0 nk0 Hk0 E0 N1 N2. destruct spc_l2 as (_ & _ & C).
+    destruct (spc_old_fresh k0 nk0 Hk0 E0) as [F1 F2]. rewrite C.
+    - destruct (Nat.eqb_spec k0 iid); [contradiction|]. destruct (Nat.eqb_spec k0 oid); [contradiction|]. exact E0.
+    - destruct Hnb as [[<- _]|[_ <-]]; assumption.
+    - destruct Hnb as [[_ <-]|[<- _]]; assumption.
+  Qed.
+
+  Lemma spc_ch_disj k : In k (ls_children o) -> In k (ls_children i) -> False.
+  Proof. pose proof spc_ch_NoDup as Hnd. apply NoDup_app_iff in Hnd. destruct Hnd as (_ & _ & Hd). apply Hd. Qed.
+
+  Lemma spc_tens_iid : aget iid (tensors s') = Some (sp_it s1 t il).
+  Proof. rewrite (spf_tensors_aget _ _ _ _ _ _ _ _ _ _ _ _ _ _ _ _ _ I (wf_tnd s1 H)). rewrite Nat.eqb_refl. reflexivity. Qed.
+  Lemma spc_tens_oid : aget oid (tensors s') = Some (sp_ot s1 t ol).
+  Proof.
+    rewrite (spf_tensors_aget _ _ _ _ _ _ _ _ _ _ _ _ _ _ _ _ _ I (wf_tnd s1 H)).
+    destruct (Nat.eqb_spec oid iid); [contradiction|]. rewrite Nat.eqb_refl. reflexivity.
+  Qed.
+  Lemma spc_tens_old k : k <> iid -> k <> oid -> aget k (tensors s') = if Nat.eqb k n then None else aget k (tensors s1).
+  Proof.
+    intros N1 N2. rewrite (spf_tensors_aget _ _ _ _ _ _ _ _ _ _ _ _ _ _ _ _ _ I (wf_tnd s1 H)).
+    destruct (Nat.eqb_spec k iid); [contradiction|]. destruct (Nat.eqb_spec k oid); [contradiction|]. reflexivity.
+  Qed.
+
+  (* case A: in is the upper node *)
+  Lemma spc_view_A :
+    ls_root o = false -> ls_parent o = None ->
+    (ls_root i = true /\ ls_parent i = None /\ parent nd = None) \/
+    (exists ip, ls_root i = false /\ ls_parent i = Some ip /\ parent nd = Some ip) ->
+    split_view s1 s' n nd t iid oid i o cI cO in2 on2 (sp_it s1 t il) (sp_ot s1 t ol) bd.
+  Proof.
+    intros Ro Po Hc.
+    assert (Ha : sp_in_above i = true).
+    { unfold sp_in_above. destruct Hc as [(-> & _)|(ip & _ & -> & _)]; [reflexivity|apply orb_true_r]. }
+    destruct (spc_in_upper Hc) as (U1 & U2 & U3 & U4 & U5).
+    destruct (spc_out_lower Ha Ro Po) as (L1 & L2 & L3 & L4 & L5).
+    destruct spc_l2 as (A & B & C).
+    assert (Hv : seq 0 (nparents nd) = sp_pl i /\ (forall q, parent nd = Some q -> ls_parent i = Some q) /\
+                 root s' = match parent nd with None => Some iid | Some _ => root s1 end).
+    { rewrite (spf_root _ _ _ _ _ _ _ _ _ _ _ _ _ _ _ _ _ I). unfold nparents, sp_pl.
+      destruct Hc as [(Ri & Pi & Pn)|(ip & Ri & Pi & Pn)]; rewrite Ri, Pi, Pn; [|rewrite Ro]; repeat split; auto; intros q [=]; congruence. }
+    destruct Hv as (Hv & Hpq & Hroot).
+    destruct LO as (O1 & O2 & O3 & O4). destruct LI as (I1 & I2 & I3 & I4).
+    constructor.
+    - exact En.
+    - exact Et.
+    - exact Hid.
+    - intros E. apply Hne. symmetry. exact E.
+    - exact (proj2 Hids).
+    - exact (proj1 Hids).
+    - exact EcI.
+    - exact EcO.
+    - exact I3.
+    - exact O3.
+    - exact I4.
+    - exact O4.
+    - rewrite Hv. rewrite app_assoc. rewrite <- Eil.
+      replace (cO ++ ls_open o) with ol by (rewrite Eol; unfold sp_pl; rewrite Po; reflexivity).
+      rewrite <- Hperm. apply Permutation_app_comm.
+    - apply spc_nodes_iid.
+    - exact U1.
+    - exact U2.
+    - exact U3.
+    - exact U4.
+    - exact U5.
+    - apply spc_it_incl.
+    - apply spc_nodes_oid.
+    - exact L1.
+    - exact L2.
+    - exact L3.
+    - exact L4.
+    - exact L5.
+    - apply spc_ot_incl.
+    - apply (spc_old_view i o iid oid); auto; try (repeat split; assumption).
+      intros k K1 K2. apply (spc_ch_disj k K2 K1).
+    - apply spc_keys.
+    - apply spc_nodes_nd.
+    - apply spc_tens_iid.
+    - apply spc_tens_oid.
+    - apply spc_tens_old.
+    - apply (spf_tensors_nd _ _ _ _ _ _ _ _ _ _ _ _ _ _ _ _ _ I (wf_tnd s1 H)).
+    - exact Hroot.
+    - apply (spf_dims _ _ _ _ _ _ _ _ _ _ _ _ _ _ _ _ _ I).
+    - apply (spf_next_wire _ _ _ _ _ _ _ _ _ _ _ _ _ _ _ _ _ I).
+  Qed.
+
+  (* case B: out is the upper node *)
+  Lemma spc_view_B :
+    ls_root i = false -> ls_parent i = None ->
+    (ls_root o = true /\ ls_parent o = None /\ parent nd = None) \/
+    (exists op, ls_root o = false /\ ls_parent o = Some op /\ parent nd = Some op) ->
+    split_view s1 s' n nd t oid iid o i cO cI on2 in2 (sp_ot s1 t ol) (sp_it s1 t il) bd.
+  Proof.
+    intros Ri Pi Hc.
+    assert (Ha : sp_in_above i = false) by (unfold sp_in_above; rewrite Ri, Pi; reflexivity).
+    destruct (spc_out_upper Ha Hc) as (U1 & U2 & U3 & U4 & U5).
+    destruct (spc_in_lower Ri Pi) as (L1 & L2 & L3 & L4 & L5).
+    destruct spc_l2 as (A & B & C).
+    assert (Hv : seq 0 (nparents nd) = sp_pl o /\ (forall q, parent nd = Some q -> ls_parent o = Some q) /\
+                 root s' = match parent nd with None => Some oid | Some _ => root s1 end).
+    { rewrite (spf_root _ _ _ _ _ _ _ _ _ _ _ _ _ _ _ _ _ I). unfold nparents, sp_pl. rewrite Ri.
+      destruct Hc as [(Ro & Po & Pn)|(op & Ro & Po & Pn)]; rewrite Ro, Po, Pn; repeat split; auto; intros q [=]; congruence. }
+    destruct Hv as (Hv & Hpq & Hroot).
+    destruct LO as (O1 & O2 & O3 & O4). destruct LI as (I1 & I2 & I3 & I4).
+    constructor.
+    - exact En.
+    - exact Et.
+    - exact Hid.
+    - exact Hne.
+    - exact (proj1 Hids).
+    - exact (proj2 Hids).
+    - exact EcO.
+    - exact EcI.
+    - exact O3.
+    - exact I3.
+    - exact O4.
+    - exact I4.
+    - rewrite Hv. rewrite app_assoc. rewrite <- Eol.
+      replace (cI ++ ls_open i) with il by (rewrite Eil; unfold sp_pl; rewrite Pi; reflexivity).
+      exact Hperm.
+    - apply spc_nodes_oid.
+    - exact U1.
+    - exact U2.
+    - exact U3.
+    - exact U4.
+    - exact U5.
+    - apply spc_ot_incl.
+    - apply spc_nodes_iid.
+    - exact L1.
+    - exact L2.
+    - exact L3.
+    - exact L4.
+    - exact L5.
+    - apply spc_it_incl.
+    - apply (spc_old_view o i oid iid); auto; try (repeat split; assumption); try apply spc_ch_disj.
+    - intros k Hk. destruct (spc_keys k Hk) as [K|[K|K]]; auto.
+    - apply spc_nodes_nd.
+    - apply spc_tens_oid.
+    - apply spc_tens_iid.
+    - intros k K1 K2. apply spc_tens_old; assumption.
+    - apply (spf_tensors_nd _ _ _ _ _ _ _ _ _ _ _ _ _ _ _ _ _ I (wf_tnd s1 H)).
+    - exact Hroot.
+    - apply (spf_dims _ _ _ _ _ _ _ _ _ _ _ _ _ _ _ _ _ I).
+    - apply (spf_next_wire _ _ _ _ _ _ _ _ _ _ _ _ _ _ _ _ _ I).
+  Qed.
+End Connect.
+
+(* ---- a successful split matches the view ------------------------------------------------------------------- *)
+Theorem split_inv_view s1 n nd t o i oid iid kind m bd s' ol il on2 in2 l2 :
+  wf s1 -> aget n (nodes s1) = Some nd -> aget n (tensors s1) = Some t -> perm nd = seq 0 (length (axes t)) ->
+  leg_ok nd o -> leg_ok nd i -> ids_ok s1 n oid iid ->
+  split_inv s1 n nd t o i oid iid kind m bd s' ol il on2 in2 l2 ->
+  exists cO cI,
+    ol = sp_pl o ++ cO ++ ls_open o /\ il = sp_pl i ++ cI ++ ls_open i /\
+    ((sp_in_above i = true /\ split_view s1 s' n nd t iid oid i o cI cO in2 on2 (sp_it s1 t il) (sp_ot s1 t ol) bd) \/
+     (sp_in_above i = false /\ split_view s1 s' n nd t oid iid o i cO cI on2 in2 (sp_ot s1 t ol) (sp_it s1 t il) bd)).
+Proof.
+  intros H En Et Hid LO LI Hids I.
+  destruct (sp_flv_inv _ _ _ (si_ol _ _ _ _ _ _ _ _ _ _ _ _ _ _ _ _ _ I)) as (cO & EcO & Eol & _).
+  destruct (sp_flv_inv _ _ _ (si_il _ _ _ _ _ _ _ _ _ _ _ _ _ _ _ _ _ I)) as (cI & EcI & Eil & _).
+  exists cO, cI. split; [exact Eol|]. split; [exact Eil|].
+  destruct (sp_cases nd o i (si_asserts _ _ _ _ _ _ _ _ _ _ _ _ _ _ _ _ _ I) LO LI)
+    as [(Ri & Pi & Ro & Po & Pn)|[(ip & Ri & Pi & Ro & Po & Pn)|[(Ri & Pi & Ro & Po & Pn)|(op & Ri & Pi & Ro & Po & Pn)]]].
+  - left. split; [unfold sp_in_above; rewrite Ri; reflexivity|].
+    apply (spc_view_A _ _ _ _ _ _ _ _ _ _ _ _ _ _ _ _ _ cO cI H En Et Hid LO LI Hids I EcO EcI Eol Eil (or_introl Po) Ro Po).
+    left. auto.
+  - left. split; [unfold sp_in_above; rewrite Pi; apply orb_true_r|].
+    apply (spc_view_A _ _ _ _ _ _ _ _ _ _ _ _ _ _ _ _ _ cO cI H En Et Hid LO LI Hids I EcO EcI Eol Eil (or_introl Po) Ro Po).
+    right. exists ip. auto.
+  - right. split; [unfold sp_in_above; rewrite Ri, Pi; reflexivity|].
+    apply (spc_view_B _ _ _ _ _ _ _ _ _ _ _ _ _ _ _ _ _ cO cI H En Et Hid LO LI Hids I EcO EcI Eol Eil (or_intror Pi) Ri Pi).
+    left. auto.
+  - right. split; [unfold sp_in_above; rewrite Ri, Pi; reflexivity|].
+    apply (spc_view_B _ _ _ _ _ _ _ _ _ _ _ _ _ _ _ _ _ cO cI H En Et Hid LO LI Hids I EcO EcI Eol Eil (or_intror Pi) Ri Pi).
+    right. exists op. auto.
+Qed.
+
+(* transfer of the side conditions through the access *)
+Lemma leg_ok_reset nd sp : leg_ok nd sp -> leg_ok (reset_permutation nd) sp.
+Proof. unfold leg_ok, reset_permutation, nvirt, nparents. cbn. auto. Qed.
+
+Lemma split_access_facts s n s1 nd t :
+  wf s -> access s n = Some (s1, nd, t) ->
+  exists nd0 t0, aget n (nodes s) = Some nd0 /\ aget n (tensors s) = Some t0 /\ nd = reset_permutation nd0 /\
+                 t = s_transpose (perm nd0) t0 /\
+                 wf s1 /\ aget n (nodes s1) = Some nd /\ aget n (tensors s1) = Some t /\
+                 perm nd = seq 0 (length (axes t)) /\ akeys (nodes s1) = akeys (nodes s) /\
+                 axes t = lax s n nd0 /\ tens s n = t0.
+Proof.
+  intros H Ha. pose proof (access_preserves_wf _ _ _ _ _ H Ha) as H1.
+  destruct (access_keys _ _ _ _ _ Ha) as (K1 & _).
+  destruct (access_inv _ _ _ _ _ Ha) as (nd0 & t0 & En & Et & -> & -> & ->).
+  exists nd0, t0. split; [exact En|]. split; [exact Et|]. split; [reflexivity|]. split; [reflexivity|].
+  split; [exact H1|]. split; [cbn; apply aget_aset_same|]. split; [cbn; apply aget_aset_same|].
+  split; [cbn; rewrite permute_length; reflexivity|]. split; [exact K1|].
+  split; [unfold lax, laxes; rewrite (tens_aget _ _ _ Et); reflexivity|apply tens_aget; exact Et].
+Qed.
+
+Theorem split_preserves_wf s n o i oid iid kind m rbond s' :
+  wf s -> split_nodes s n o i oid iid kind m rbond = Some s' -> spec_ok s n o i -> ids_ok s n oid iid -> wf s'.
+Proof.
+  intros H Hs Hspec Hids.
+  destruct (split_nodes_inv _ _ _ _ _ _ _ _ _ _ Hs) as (s1 & nd & t & ol & il & on2 & in2 & l2 & bd & Ha & _ & I).
+  destruct (split_access_facts _ _ _ _ _ H Ha) as (nd0 & t0 & En0 & Et0 & End & Etr & H1 & En & Et & Hid & Hk & _).
+  destruct (Hspec nd0 En0) as [LO LI].
+  assert (LO' : leg_ok nd o) by (rewrite End; apply leg_ok_reset; exact LO).
+  assert (LI' : leg_ok nd i) by (rewrite End; apply leg_ok_reset; exact LI).
+  assert (Hids' : ids_ok s1 n oid iid) by (unfold ids_ok; rewrite Hk; exact Hids).
+  destruct (split_inv_view _ _ _ _ _ _ _ _ _ _ _ _ _ _ _ _ _ H1 En Et Hid LO' LI' Hids' I) as (cO & cI & _ & _ & [[_ V]|[_ V]]);
+    apply (split_view_wf _ _ _ _ _ _ _ _ _ _ _ _ _ _ _ _ H1 V).
+Qed.
+
+Theorem split_preserves_wfb_bool s n o i oid iid kind m rbond s' :
+  wfb s = true -> split_nodes s n o i oid iid kind m rbond = Some s' ->
+  spec_okb s n o i = true -> ids_okb s n oid iid = true -> wfb s' = true.
+Proof.
+  intros H Hs Hspec Hids. apply wfb_iff. apply wfb_iff in H. apply spec_okb_spec in Hspec. apply ids_okb_spec in Hids.
+  eapply split_preserves_wf; eauto.
+Qed.
+
+(* the same with the Prop-level side conditions *)
+Theorem split_preserves_wfb s n o i oid iid kind m rbond s' :
+  wfb s = true -> split_nodes s n o i oid iid kind m rbond = Some s' ->
+  spec_ok s n o i -> ids_ok s n oid iid -> wfb s' = true.
+Proof. intros H Hs Hspec Hids. apply wfb_iff. apply wfb_iff in H. eapply split_preserves_wf; eauto. Qed.
+
+(* ---- the truthfulness of the specifications is needed --------------------------------------------------------- *)
+(* a root with two children; the out specification claims that child 1 is the parent *)
+Definition sp_cex_store : store :=
+  fst (run empty_store [AddRoot 0 [2; 3; 2]; AddChild 1 [2; 2] 1 0 0; AddChild 2 [3; 2] 0 0 1]).
+Definition sp_cex_o : legspec := {| ls_parent := Some 1; ls_children := []; ls_open := []; ls_root := false |}.
+Definition sp_cex_i : legspec := {| ls_parent := None; ls_children := [2]; ls_open := [2]; ls_root := false |}.
+
+Example split_bad_spec_counterexample :
+  wfb sp_cex_store = true /\ ids_okb sp_cex_store 0 5 6 = true /\ spec_okb sp_cex_store 0 sp_cex_o sp_cex_i = false /\
+  exists s', split_nodes sp_cex_store 0 sp_cex_o sp_cex_i 5 6 0 Reduced 0 = Some s' /\ wfb s' = false.
+Proof.
+  split; [vm_compute; reflexivity|]. split; [vm_compute; reflexivity|]. split; [vm_compute; reflexivity|].
+  destruct (split_nodes sp_cex_store 0 sp_cex_o sp_cex_i 5 6 0 Reduced 0) as [s'|] eqn:E.
+  - exists s'. split; [reflexivity|]. revert E. vm_compute. intros [= <-]. reflexivity.
+  - exfalso. revert E. vm_compute. discriminate.
+Qed.
+
+(* a second one: a non-root node declared root (ls_root o together with ls_parent o) *)
+Example split_bad_spec_counterexample2 :
+  exists s', split_nodes sp_cex_store 1 {| ls_parent := Some 0; ls_children := []; ls_open := []; ls_root := true |}
+                         {| ls_parent := None; ls_children := []; ls_open := [1]; ls_root := false |} 5 6 0 Reduced 0 = Some s'
+             /\ wfb s' = false.
+Proof.
+  match goal with |- exists s', ?x = Some s' /\ _ => destruct x as [s'|] eqn:E end.
+  - exists s'. split; [reflexivity|]. revert E. vm_compute. intros [= <-]. reflexivity.
+  - exfalso. revert E. vm_compute. discriminate.
+Qed.
+
+(* identifier freshness is needed as well: the model (like the code) does not check it; reusing the
+   identifier of another existing node (here 2) overwrites that node *)
+Example split_bad_ids_counterexample :
+  spec_okb sp_cex_store 1 {| ls_parent := None; ls_children := []; ls_open := [1]; ls_root := false |}
+                          {| ls_parent := Some 0; ls_children := []; ls_open := []; ls_root := false |} = true /\
+  ids_okb sp_cex_store 1 2 6 = false /\
+  exists s', split_nodes sp_cex_store 1 {| ls_parent := None; ls_children := []; ls_open := [1]; ls_root := false |}
+                         {| ls_parent := Some 0; ls_children := []; ls_open := []; ls_root := false |} 2 6 1 Reduced 0 = Some s'
+             /\ wfb s' = false.
+Proof.
+  split; [vm_compute; reflexivity|]. split; [vm_compute; reflexivity|].
+  match goal with |- exists s', ?x = Some s' /\ _ => destruct x as [s'|] eqn:E end.
+  - exists s'. split; [reflexivity|]. revert E. vm_compute. intros [= <-]. reflexivity.
+  - exfalso. revert E. vm_compute. discriminate.
+Qed.
+
+(* non-vacuity: all four accepted configurations (in root / in with parent / out root / out with
+   parent), with fresh and with reused identifiers, satisfy the side conditions *)
+Definition sp_nv_spec (p : option id) (c : list id) (o : list nat) (r : bool) : legspec :=
+  {| ls_parent := p; ls_children := c; ls_open := o; ls_root := r |}.
+Definition sp_nv_chk (n : id) (o i : legspec) (oid iid : id) : bool :=
+  spec_okb sp_cex_store n o i && ids_okb sp_cex_store n oid iid &&
+  match split_nodes sp_cex_store n o i oid iid 1 Reduced 0 with Some s' => wfb s' | None => false end.
+Example split_side_conditions_nonvacuous :
+  forallb (fun b => b)
+    [sp_nv_chk 0 (sp_nv_spec None [1] [] true) (sp_nv_spec None [2] [2] false) 5 6;
+     sp_nv_chk 0 (sp_nv_spec None [1] [] false) (sp_nv_spec None [2] [2] true) 5 6;
+     sp_nv_chk 0 (sp_nv_spec None [1] [] false) (sp_nv_spec None [2] [2] true) 0 6;
+     sp_nv_chk 0 (sp_nv_spec None [1] [] false) (sp_nv_spec None [2] [2] true) 5 0;
+     sp_nv_chk 1 (sp_nv_spec (Some 0) [] [] false) (sp_nv_spec None [] [1] false) 5 6;
+     sp_nv_chk 1 (sp_nv_spec None [] [1] false) (sp_nv_spec (Some 0) [] [] false) 5 6;
+     sp_nv_chk 1 (sp_nv_spec None [] [1] false) (sp_nv_spec (Some 0) [] [] false) 1 6;
+     sp_nv_chk 0 (sp_nv_spec None [2; 1] [] true) (sp_nv_spec None [] [2] false) 5 6;
+     sp_nv_chk 0 (sp_nv_spec None [] [] true) (sp_nv_spec None [2; 1] [2] false) 5 6] = true.
+Proof. vm_compute. reflexivity. Qed.
+
+(* ---- diagram statements ------------------------------------------------------------------------------------------ *)
+Lemma sp_tensors_perm s1 n nd t o i oid iid kind m bd s' ol il on2 in2 l2 :
+  wf s1 -> ids_ok s1 n oid iid ->
+  split_inv s1 n nd t o i oid iid kind m bd s' ol il on2 in2 l2 ->
+  Permutation (tensors s') ((oid, sp_ot s1 t ol) :: (iid, sp_it s1 t il) :: adel n (tensors s1)).
+Proof.
+  intros H Hids I. pose proof (wf_tnd s1 H) as Htnd.
+  assert (Hfresh : forall x, x = n \/ ~ In x (akeys (nodes s1)) -> ~ In x (akeys (adel n (tensors s1)))).
+  { intros x [->|Hx] Hin.
+    - apply keys_aget in Hin. destruct Hin as [v Hv]. rewrite aget_adel_same in Hv by exact Htnd. discriminate.
+    - apply akeys_adel_incl in Hin. apply Hx. apply (wf_keys_iff s1 x H). exact Hin. }
+  apply sp_assoc_perm.
+  - apply (spf_tensors_nd _ _ _ _ _ _ _ _ _ _ _ _ _ _ _ _ _ I Htnd).
+  - cbn. constructor.
+    + intros [E|Hin]; [apply (si_ids _ _ _ _ _ _ _ _ _ _ _ _ _ _ _ _ _ I); symmetry; exact E|].
+      apply (Hfresh oid (proj1 Hids) Hin).
+    + constructor; [apply (Hfresh iid (proj2 Hids))|apply NoDup_akeys_adel; exact Htnd].
+  - intros k. rewrite (spf_tensors_aget _ _ _ _ _ _ _ _ _ _ _ _ _ _ _ _ _ I Htnd). cbn.
+    rewrite (aget_adel _ _ _ Htnd).
+    destruct (Nat.eqb_spec k iid) as [E1|N1]; destruct (Nat.eqb_spec k oid) as [E2|N2]; try reflexivity.
+    exfalso. apply (si_ids _ _ _ _ _ _ _ _ _ _ _ _ _ _ _ _ _ I). congruence.
+Qed.
+
+Lemma sp_access_next s n s1 nd t : access s n = Some (s1, nd, t) ->
+  next_atom s1 = next_atom s /\ next_wire s1 = next_wire s /\ defs s1 = defs s /\ dims s1 = dims s /\ atab s1 = atab s.
+Proof. intros Ha. destruct (access_inv _ _ _ _ _ Ha) as (nd0 & t0 & _ & _ & _ & _ & ->). cbn. auto. Qed.
+
+(* atoms: the atoms of the split tensor are replaced by the two fresh atoms *)
+Theorem split_total_atoms s n o i oid iid kind m rbond s' :
+  wf s -> split_nodes s n o i oid iid kind m rbond = Some s' -> ids_ok s n oid iid ->
+  exists rest, Permutation (total_atoms s) (atoms (tens s n) ++ rest) /\
+               Permutation (total_atoms s') (next_atom s :: S (next_atom s) :: rest).
+Proof.
+  intros H Hs Hids.
+  destruct (split_nodes_inv _ _ _ _ _ _ _ _ _ _ Hs) as (s1 & nd & t & ol & il & on2 & in2 & l2 & bd & Ha & _ & I).
+  destruct (split_access_facts _ _ _ _ _ H Ha) as (nd0 & t0 & En0 & Et0 & End & Etr & H1 & En & Et & Hid & Hk & _ & Ht0).
+  destruct (sp_access_next _ _ _ _ _ Ha) as (Na & _).
+  assert (Hids' : ids_ok s1 n oid iid) by (unfold ids_ok; rewrite Hk; exact Hids).
+  exists (flat_map (fun kt => atoms (snd kt)) (adel n (tensors s1))). split.
+  - rewrite <- (access_total_atoms _ _ _ _ _ H Ha). unfold total_atoms.
+    rewrite (Permutation_flat_map _ (sp_adel_decomp n t (tensors s1) (wf_tnd s1 H1) Et)). cbn.
+    rewrite Etr, Ht0. reflexivity.
+  - unfold total_atoms. rewrite (Permutation_flat_map _ (sp_tensors_perm _ _ _ _ _ _ _ _ _ _ _ _ _ _ _ _ _ H1 Hids' I)).
+    cbn. rewrite Na. reflexivity.
+Qed.
+
+(* wire ends: the bound wires of the split tensor move into the kernel definition's input, its
+   axes are distributed over the two new tensors, and the new bond wire has two ends *)
+Theorem split_total_ends s n o i oid iid kind m rbond s' :
+  wf s -> split_nodes s n o i oid iid kind m rbond = Some s' -> ids_ok s n oid iid ->
+  exists rest, Permutation (total_ends s) (sarr_ends (tens s n) ++ rest) /\
+               Permutation (total_ends s') (next_wire s :: next_wire s :: axes (tens s n) ++ rest).
+Proof.
+  intros H Hs Hids.
+  destruct (split_nodes_inv _ _ _ _ _ _ _ _ _ _ Hs) as (s1 & nd & t & ol & il & on2 & in2 & l2 & bd & Ha & _ & I).
+  destruct (split_access_facts _ _ _ _ _ H Ha) as (nd0 & t0 & En0 & Et0 & End & Etr & H1 & En & Et & Hid & Hk & _ & Ht0).
+  destruct (sp_access_next _ _ _ _ _ Ha) as (_ & Nw & _).
+  assert (Hids' : ids_ok s1 n oid iid) by (unfold ids_ok; rewrite Hk; exact Hids).
+  assert (Hax : Permutation (axes t) (axes t0)).
+  { rewrite Etr. cbn. apply permute_is_perm. pose proof (wf_node s H n nd0 En0) as Hn.
+    replace (length (axes t0)) with (length (shape nd0)); [apply (ni_perm _ _ _ Hn)|].
+    rewrite (ni_shape _ _ _ Hn), Ht0, map_length. reflexivity. }
+  exists (flat_map (fun kt => sarr_ends (snd kt)) (adel n (tensors s1))). split.
+  - rewrite <- (access_total_ends _ _ _ _ _ H Ha). unfold total_ends.
+    rewrite (Permutation_flat_map _ (sp_adel_decomp n t (tensors s1) (wf_tnd s1 H1) Et)). cbn.
+    apply Permutation_app_tail. unfold sarr_ends. rewrite Ht0. rewrite Hax. rewrite Etr. reflexivity.
+  - unfold total_ends. rewrite (Permutation_flat_map _ (sp_tensors_perm _ _ _ _ _ _ _ _ _ _ _ _ _ _ _ _ _ H1 Hids' I)).
+    cbn. unfold sarr_ends. cbn. rewrite !app_nil_r. rewrite Nw, Ht0.
+    rewrite <- app_assoc. cbn. rewrite <- Permutation_middle. apply perm_skip.
+    symmetry. apply Permutation_cons_app. symmetry. rewrite app_assoc. apply Permutation_app_tail.
+    rewrite <- sp_permute_app. rewrite <- Hax. apply permute_is_perm. apply (si_perm _ _ _ _ _ _ _ _ _ _ _ _ _ _ _ _ _ I).
+Qed.
+
+(* the newest definition and the two new tensors: contracting the two tensors over the bond and
+   substituting the definition gives back the logical tensor of n transposed to out legs ++ in legs *)
+Theorem split_new_def s n o i oid iid kind m rbond s' d0 :
+  wf s -> split_nodes s n o i oid iid kind m rbond = Some s' ->
+  exists s1 nd t ol il bd,
+    access s n = Some (s1, nd, t) /\ logical s n = Some t /\
+    find_leg_values nd o = Some ol /\ find_leg_values nd i = Some il /\
+    Permutation (ol ++ il) (seq 0 (length (axes t))) /\
+    bd = sp_bd s kind m rbond (permute 0 ol (axes t)) (permute 0 il (axes t)) /\
+    last (defs s') d0 = {| kq := next_atom s; kr := S (next_atom s); kbond := next_wire s;
+                           kinput := s_transpose (ol ++ il) t; kkind := kind;
+                           kmode := match kind with 0 => Some m | _ => None end |} /\
+    defs s' = defs s ++ [last (defs s') d0] /\
+    aget oid (tensors s') = Some {| axes := permute 0 ol (axes t) ++ [next_wire s]; atoms := [next_atom s]; bnd := [] |} /\
+    aget iid (tensors s') = Some {| axes := next_wire s :: permute 0 il (axes t); atoms := [S (next_atom s)]; bnd := [] |} /\
+    next_wire s' = S (next_wire s) /\ next_atom s' = S (S (next_atom s)) /\
+    dims s' = dims s ++ [(next_wire s, bd)] /\ wdim s' (next_wire s) = bd.
+Proof.
+  intros H Hs.
+  destruct (split_nodes_inv _ _ _ _ _ _ _ _ _ _ Hs) as (s1 & nd & t & ol & il & on2 & in2 & l2 & bd & Ha & Hbd & I).
+  destruct (split_access_facts _ _ _ _ _ H Ha) as (nd0 & t0 & En0 & Et0 & End & Etr & H1 & En & Et & Hid & Hk & _ & Ht0).
+  destruct (sp_access_next _ _ _ _ _ Ha) as (Na & Nw & Nd & Ndm & _).
+  exists s1, nd, t, ol, il, bd.
+  split; [exact Ha|]. split; [apply (access_returns_logical _ _ _ _ _ Ha)|].
+  split; [apply (si_ol _ _ _ _ _ _ _ _ _ _ _ _ _ _ _ _ _ I)|]. split; [apply (si_il _ _ _ _ _ _ _ _ _ _ _ _ _ _ _ _ _ I)|].
+  split; [apply (si_perm _ _ _ _ _ _ _ _ _ _ _ _ _ _ _ _ _ I)|]. split; [exact Hbd|].
+  pose proof (spf_defs _ _ _ _ _ _ _ _ _ _ _ _ _ _ _ _ _ I) as Hd.
+  assert (Hlast : last (defs s') d0 = sp_def s1 t ol il kind m) by (rewrite Hd; apply last_last).
+  split; [rewrite Hlast; unfold sp_def; rewrite Na, Nw; reflexivity|].
+  split; [rewrite Hlast, Hd, Nd; reflexivity|].
+  pose proof (spf_tensors_aget _ _ _ _ _ _ _ _ _ _ _ _ _ _ _ _ _ I (wf_tnd s1 H1)) as HT.
+  split.
+  { rewrite HT. destruct (Nat.eqb_spec oid iid) as [E|_]; [exfalso; apply (si_ids _ _ _ _ _ _ _ _ _ _ _ _ _ _ _ _ _ I E)|].
+    rewrite Nat.eqb_refl. unfold sp_ot. rewrite Na, Nw. reflexivity. }
+  split.
+  { rewrite HT. rewrite Nat.eqb_refl. unfold sp_it. rewrite Na, Nw. reflexivity. }
+  split; [rewrite (spf_next_wire _ _ _ _ _ _ _ _ _ _ _ _ _ _ _ _ _ I), Nw; reflexivity|].
+  split; [rewrite (spf_next_atom _ _ _ _ _ _ _ _ _ _ _ _ _ _ _ _ _ I), Na; reflexivity|].
+  pose proof (spf_dims _ _ _ _ _ _ _ _ _ _ _ _ _ _ _ _ _ I) as Hdm. rewrite Ndm, Nw in Hdm.
+  split; [exact Hdm|]. unfold wdim. rewrite Hdm, aget_app.
+  assert (Hnone : aget (next_wire s) (dims s) = None).
+  { apply aget_None. intros Hin. pose proof (wf_dims s H _ Hin). lia. }
+  rewrite Hnone. cbn. rewrite Nat.eqb_refl. reflexivity.
+Qed.
+
+(* the open-leg rule: the out node's open legs are the wires named by the out specification's
+   open legs (in specification order), likewise the in node; every other node keeps its open wires *)
+Theorem split_open_legs s n o i oid iid kind m rbond s' nd0 :
+  wf s -> split_nodes s n o i oid iid kind m rbond = Some s' -> spec_ok s n o i -> ids_ok s n oid iid ->
+  aget n (nodes s) = Some nd0 ->
+  exists no ni,
+    aget oid (nodes s') = Some no /\ aget iid (nodes s') = Some ni /\
+    open_of no (tens s' oid) = map (fun l => nth l (lax s n nd0) 0) (ls_open o) /\
+    open_of ni (tens s' iid) = map (fun l => nth l (lax s n nd0) 0) (ls_open i) /\
+    (forall k nk, k <> n -> aget k (nodes s) = Some nk ->
+       exists nk', aget k (nodes s') = Some nk' /\ open_of nk' (tens s' k) = open_of nk (tens s k) /\
+                   own_of nk' (tens s' k) = own_of nk (tens s k)).
+Proof.
+  intros H Hs Hspec Hids En0'.
+  destruct (split_nodes_inv _ _ _ _ _ _ _ _ _ _ Hs) as (s1 & nd & t & ol & il & on2 & in2 & l2 & bd & Ha & _ & I).
+  destruct (split_access_facts _ _ _ _ _ H Ha) as (nd0' & t0 & En0 & Et0 & End & Etr & H1 & En & Et & Hid & Hk & Hlax & Ht0).
+  rewrite En0' in En0. injection En0 as <-.
+  destruct (Hspec nd0 En0') as [LO LI].
+  assert (LO' : leg_ok nd o) by (rewrite End; apply leg_ok_reset; exact LO).
+  assert (LI' : leg_ok nd i) by (rewrite End; apply leg_ok_reset; exact LI).
+  assert (Hids' : ids_ok s1 n oid iid) by (unfold ids_ok; rewrite Hk; exact Hids).
+  assert (Hother : forall k nk, k <> n -> aget k (nodes s) = Some nk ->
+            aget k (nodes s1) = Some nk /\ tens s1 k = tens s k).
+  { intros k nk Hkn E. destruct (access_inv _ _ _ _ _ Ha) as (x & y & _ & _ & _ & _ & ->). cbn. unfold tens. cbn.
+    rewrite !aget_aset_other by exact Hkn. auto. }
+  destruct (split_inv_view _ _ _ _ _ _ _ _ _ _ _ _ _ _ _ _ _ H1 En Et Hid LO' LI' Hids' I) as (cO & cI & _ & _ & [[_ V]|[_ V]]).
+  - exists on2, in2.
+    split; [apply (sv_nL _ _ _ _ _ _ _ _ _ _ _ _ _ _ _ _ V)|]. split; [apply (sv_nU _ _ _ _ _ _ _ _ _ _ _ _ _ _ _ _ V)|].
+    split; [rewrite (svw_tens_L _ _ _ _ _ _ _ _ _ _ _ _ _ _ _ _ V), (svw_open_L _ _ _ _ _ _ _ _ _ _ _ _ _ _ _ _ V), Hlax; reflexivity|].
+    split; [rewrite (svw_tens_U _ _ _ _ _ _ _ _ _ _ _ _ _ _ _ _ V), (svw_open_U _ _ _ _ _ _ _ _ _ _ _ _ _ _ _ _ H1 V), Hlax; reflexivity|].
+    intros k nk Hkn E. destruct (Hother k nk Hkn E) as [E1 Et1].
+    destruct (svw_old _ _ _ _ _ _ _ _ _ _ _ _ _ _ _ _ H1 V k nk Hkn E1) as (nk' & E' & _).
+    destruct (svw_own_old _ _ _ _ _ _ _ _ _ _ _ _ _ _ _ _ H1 V k nk nk' Hkn E1 E') as [O1 O2].
+    exists nk'. rewrite <- Et1. auto.
+  - exists on2, in2.
+    split; [apply (sv_nU _ _ _ _ _ _ _ _ _ _ _ _ _ _ _ _ V)|]. split; [apply (sv_nL _ _ _ _ _ _ _ _ _ _ _ _ _ _ _ _ V)|].
+    split; [rewrite (svw_tens_U _ _ _ _ _ _ _ _ _ _ _ _ _ _ _ _ V), (svw_open_U _ _ _ _ _ _ _ _ _ _ _ _ _ _ _ _ H1 V), Hlax; reflexivity|].
+    split; [rewrite (svw_tens_L _ _ _ _ _ _ _ _ _ _ _ _ _ _ _ _ V), (svw_open_L _ _ _ _ _ _ _ _ _ _ _ _ _ _ _ _ V), Hlax; reflexivity|].
+    intros k nk Hkn E. destruct (Hother k nk Hkn E) as [E1 Et1].
+    destruct (svw_old _ _ _ _ _ _ _ _ _ _ _ _ _ _ _ _ H1 V k nk Hkn E1) as (nk' & E' & _).
+    destruct (svw_own_old _ _ _ _ _ _ _ _ _ _ _ _ _ _ _ _ H1 V k nk nk' Hkn E1 E') as [O1 O2].
+    exists nk'. rewrite <- Et1. auto.
+Qed.
+
+Print Assumptions split_preserves_wf.
+Print Assumptions split_preserves_wfb.
+Print Assumptions split_preserves_wfb_bool.
+Print Assumptions split_total_atoms.
+Print Assumptions split_total_ends.
+Print Assumptions split_new_def.
+Print Assumptions split_open_legs.
+Print Assumptions split_bad_spec_counterexample.
